@@ -27,7 +27,16 @@ EXPLANATION = (
     "collections or getattr(self, name); guards are decided on the CFG (edges that establish the fact, the exhausted edge of a loop that checked "
     "every element) and followed into Network's own decision helpers (every compatible return must establish the fact; bool / None / tag / tuple "
     "results, dispatch tables denote all their values); cached values handed to a helper are followed with the parameters bound; generator helpers "
-    "are read as streams of what they yield. remove_peer must purge the address cache by scanning it (by value), not by the addresses of the Peer "
+    "are read as streams of what they yield. Decisions carried by VALUES (a flag / tag / Enum member, or a result object - tuple, NamedTuple, "
+    "dataclass, small class, dict - with the tag in one component, produced by an inlined or a followed decision helper and acted on by if/elif, "
+    "match or a dispatch table keyed by the tag) are followed along the paths: every every-path question is asked on the executable paths only "
+    "(a binding of the verdict local is never paired with a dispatch arm its tag refutes; testing the same local twice does not pair contradicting "
+    "outcomes; `flag = <test>` / `tag = A if <test> else B` hand <test> on to the outcome that tests the local). "
+    "Three further necessary conditions: the address-cache reader must establish that the cached peer STILL USES the address (addresses of a live "
+    "peer change without any removal, which purges nothing); a Peer put into a lookup cache must be the instance the graph stores, not an equal "
+    "object handed in from outside (address updates are merged into the stored instance only) - reported only when the inserted value can be "
+    "nothing else; remove_by_address must decide 'uses the address' over the values of peer.addresses, not by a probe under the class of the "
+    "argument (the dict is keyed by the class of the registered object, addresses compare by value). remove_peer must purge the address cache by scanning it (by value), not by the addresses of the Peer "
     "object it was handed (another instance of the same identity may carry other addresses)."
 )
 
@@ -306,6 +315,62 @@ def _updates_index(ctx: Ctx, fi: FuncInfo, index: str, depth: int = 2) -> bool:
     return False
 
 
+_READ_ONLY_CALLEES = ("len", "list", "set", "tuple", "frozenset", "sorted", "iter", "enumerate", "reversed", "dict", "any", "all", "sum", "min", "max", "isinstance",
+                      "id", "bool", "str", "repr", "print", "zip", "map", "filter", "next", "cast", "chain", "chain.from_iterable", "itertools.chain",
+                      "itertools.chain.from_iterable", "islice", "itertools.islice", "copy", "copy.copy", "deepcopy", "copy.deepcopy", "OrderedDict")
+
+
+def _escapes(ctx: Ctx, net, fi: FuncInfo, coll: str, depth: int = 2, _seen: frozenset = frozenset()) -> ast.AST | None:
+    """
+    a call in fi (or in a private Network helper it reaches) that hands the collection self.<coll> itself to code this module does not
+    follow (a function / class outside Network, e.g. a small callable class that keeps it): what happens to the collection there is
+    unknown, so "this function does not update it" cannot be concluded.  -> the call, or None
+    """
+    want = "self." + coll
+    followed_ctors = set()      # helper objects whose every use is a method call this module follows (see _object_method_target)
+    for c in calls(fi):
+        if _object_method_target(net, fi, c) is None:
+            continue
+        f_ = strip_cast(c.func)
+        obj = strip_cast(f_.value) if isinstance(f_, ast.Attribute) else f_
+        if isinstance(obj, ast.Call):
+            followed_ctors.add(id(obj))
+        elif isinstance(obj, ast.Name):
+            d_ = single_def(fi, obj.id)
+            uses = [n for n in walk_no_nested(fi.node) if isinstance(n, ast.Name) and n.id == obj.id and isinstance(n.ctx, ast.Load)]
+            if d_ is not None and all(any(strip_cast(c2.func) is u or (isinstance(strip_cast(c2.func), ast.Attribute) and strip_cast(c2.func).value is u)
+                                          for c2 in calls(fi) if _object_method_target(net, fi, c2) is not None) for u in uses):
+                followed_ctors.add(id(strip_cast(d_[0])))
+    for c in calls(fi):
+        if _call_targets(net, fi, c) or id(c) in followed_ctors:
+            continue
+        ch = chain(c.func) or ""
+        if ch in _READ_ONLY_CALLEES or ch.split(".")[-1] in ("debug", "info", "warning", "error", "exception", "log", "format", "join"):
+            continue
+        if isinstance(c.func, ast.Attribute) and want in _denotes(fi, c.func.value):
+            continue        # a method of the collection itself: seen by _coll_ops
+        for a_ in [*c.args, *[k.value for k in c.keywords]]:
+            a_ = a_.value if isinstance(a_, ast.Starred) else a_
+            if want in _denotes(fi, a_):
+                return c
+    if depth > 0:
+        for c in calls(fi):
+            for t in _call_targets(net, fi, c):
+                if _is_private(t) and id(t.node) not in _seen:
+                    r = _escapes(ctx, net, t, coll, depth - 1, _seen | {id(fi.node)})
+                    if r is not None:
+                        return r
+    return None
+
+
+def _undecided_if_escapes(ctx: Ctx, net, fi: FuncInfo, colls, what: str) -> None:
+    for coll in colls:
+        c = _escapes(ctx, net, fi, coll)
+        if c is not None:
+            raise AnalysisError(f"undecided: {what}: {fi.qualname} hands self.{coll} to `{norm(c)[:70]}`, which is not one of Network's own methods - what it does "
+                                "with the collection is not followed")
+
+
 def _callers_update(ctx: Ctx, fi: FuncInfo, index: str, depth: int = 2) -> bool:
     """fi is a private helper (the mutation was moved out of the mutator): every function that uses it writes the derived index"""
     if depth <= 0 or fi.cls is None or not _is_private(fi):
@@ -328,6 +393,178 @@ def _unwrap(e: ast.AST) -> ast.AST:
     while isinstance(e, ast.Call) and isinstance(e.func, ast.Name) and e.func.id in _WRAPPERS and len(e.args) == 1 and not e.keywords:
         e = strip_cast(e.args[0])
     return e
+
+
+# ------------------------------------------------------------------------------------------------------------------
+# functional pipelines read as the comprehensions they compute.  map(f, it) is (f(x) for x in it); filter(p, it) is (x for x in it if
+# p(x)); chain.from_iterable(its) is (x for it in its for x in it); attrgetter("a") / itemgetter(k) / methodcaller("m", ..) /
+# partial(g, ..) / a lambda / C.__contains__ applied to x are x.a / x[k] / x.m(..) / g(.., x) / the lambda's body / x in C.  The view is a
+# NEW syntax tree (the repository's trees are never touched) hung under the parent of the expression it stands for, so that enclosing
+# statements, CFG nodes and dominating facts are found from inside it; one view per original expression (stable identity).
+
+_PIPE_MEMO: dict = {}
+_PIPE_KEEP: list = []       # keeps the originals alive so that id() keys are never reused
+
+
+def _fn_applied(fi: FuncInfo | None, f: ast.AST, args: list[ast.AST], depth: int = 4) -> ast.AST | None:
+    """the expression f(*args) with the callable object f spelled out, else None"""
+    f = strip_cast(f)
+    if depth <= 0:
+        return None
+    if isinstance(f, ast.Lambda):
+        a = f.args
+        if a.vararg or a.kwarg or a.kwonlyargs or a.defaults or len(a.posonlyargs + a.args) != len(args):
+            return None
+        names = [x.arg for x in a.posonlyargs + a.args]
+        if any(isinstance(n, (ast.Lambda, ast.NamedExpr)) for n in ast.walk(f.body)):
+            return None
+        return _SubstNames(dict(zip(names, args))).visit(clone(f.body))
+    if isinstance(f, ast.Call) and not any(isinstance(x, ast.Starred) for x in f.args) and not any(k.arg is None for k in f.keywords):
+        nm = (chain(f.func) or "").split(".")[-1]
+        if nm == "attrgetter" and len(f.args) == 1 and isinstance(const_value(f.args[0]), str) and len(args) == 1 and not f.keywords:
+            out = clone(args[0])
+            for part in const_value(f.args[0]).split("."):
+                if not part.isidentifier():
+                    return None
+                out = ast.Attribute(value=out, attr=part, ctx=ast.Load())
+            return out
+        if nm == "itemgetter" and len(f.args) == 1 and len(args) == 1 and not f.keywords:
+            return ast.Subscript(value=clone(args[0]), slice=clone(f.args[0]), ctx=ast.Load())
+        if nm == "methodcaller" and f.args and isinstance(const_value(f.args[0]), str) and const_value(f.args[0]).isidentifier() and len(args) == 1:
+            return ast.Call(func=ast.Attribute(value=clone(args[0]), attr=const_value(f.args[0]), ctx=ast.Load()), args=[clone(x) for x in f.args[1:]],
+                            keywords=[clone(k) for k in f.keywords])
+        if nm == "partial" and f.args:
+            inner = _fn_applied(fi, f.args[0], [*f.args[1:], *args], depth - 1)
+            if inner is None or (f.keywords and not isinstance(inner, ast.Call)):
+                return None
+            if f.keywords:
+                inner.keywords = [*inner.keywords, *[clone(k) for k in f.keywords]]
+            return inner
+        return None
+    if isinstance(f, ast.Name) and fi is not None and f.id not in fi.params():
+        r = resolve(fi, f)
+        if r is not f and isinstance(strip_cast(r), (ast.Lambda, ast.Call, ast.Attribute)):
+            return _fn_applied(fi, r, args, depth - 1)
+    if isinstance(f, ast.Attribute) and f.attr == "__contains__" and len(args) == 1:
+        return ast.Compare(left=clone(args[0]), ops=[ast.In()], comparators=[clone(f.value)])
+    if isinstance(f, ast.Attribute) and f.attr == "__getitem__" and len(args) == 1:
+        return ast.Subscript(value=clone(f.value), slice=clone(args[0]), ctx=ast.Load())
+    if isinstance(f, (ast.Name, ast.Attribute)):
+        return ast.Call(func=clone(f), args=[clone(x) for x in args], keywords=[])
+    return None
+
+
+def _pure_path(e: ast.AST) -> bool:
+    e = strip_cast(e)
+    while isinstance(e, ast.Attribute):
+        e = strip_cast(e.value)
+    return isinstance(e, ast.Name)
+
+
+def _pipeline_build(fi: FuncInfo | None, e: ast.AST, counter: list) -> ast.GeneratorExp | None:
+    e = strip_cast(e)
+    if isinstance(e, ast.Call) and isinstance(e.func, ast.Name) and e.func.id in ("list", "tuple", "iter") and len(e.args) == 1 and not e.keywords:
+        return _pipeline_build(fi, e.args[0], counter)
+    if isinstance(e, ast.Name) and fi is not None and e.id not in fi.params():
+        r = resolve(fi, e)
+        return _pipeline_build(fi, r, counter) if r is not e and isinstance(strip_cast(r), ast.Call) else None
+    if not isinstance(e, ast.Call) or e.keywords or any(isinstance(x, ast.Starred) for x in e.args):
+        return None
+    nm = chain(e.func) or ""
+
+    def fresh():
+        counter[0] += 1
+        return f"_pv{counter[0]}"
+
+    def source(it):
+        """(element expression, generators) of the iterable `it`"""
+        g = _pipeline_build(fi, it, counter)
+        it0 = strip_cast(it)
+        if g is None and isinstance(it0, (ast.GeneratorExp, ast.ListComp, ast.SetComp)) and not isinstance(it0, ast.SetComp):
+            g = ast.GeneratorExp(elt=clone(it0.elt), generators=clone(it0.generators))      # already a comprehension
+        if g is not None and (_pure_path(g.elt) or isinstance(strip_cast(g.elt), ast.Call) and _pure_path(strip_cast(g.elt).func) and not strip_cast(g.elt).args):
+            return g.elt, g.generators
+        x = fresh()
+        return ast.Name(id=x, ctx=ast.Load()), [ast.comprehension(target=ast.Name(id=x, ctx=ast.Store()), iter=g if g is not None else clone(it), ifs=[], is_async=0)]
+    if nm == "map" and len(e.args) >= 2:
+        its = e.args[1:]
+        consts = [strip_cast(i).args[0] if isinstance(strip_cast(i), ast.Call) and (chain(strip_cast(i).func) or "").split(".")[-1] == "repeat"
+                  and len(strip_cast(i).args) == 1 else None for i in its]
+        varying = [i for i, c in zip(its, consts) if c is None]
+        if len(varying) != 1:
+            return None
+        elt, gens = source(varying[0])
+        body = _fn_applied(fi, e.args[0], [elt if c is None else c for c in consts])
+        return ast.GeneratorExp(elt=body, generators=gens) if body is not None else None
+    if nm == "filter" and len(e.args) == 2:
+        elt, gens = source(e.args[1])
+        cond = clone(elt) if const_value(e.args[0]) is None and isinstance(e.args[0], ast.Constant) else _fn_applied(fi, e.args[0], [elt])
+        if cond is None:
+            return None
+        gens = list(gens)
+        last = gens[-1]
+        gens[-1] = ast.comprehension(target=last.target, iter=last.iter, ifs=[*last.ifs, cond], is_async=0)
+        return ast.GeneratorExp(elt=clone(elt), generators=gens)
+    if nm.split(".")[-2:] == ["chain", "from_iterable"] and len(e.args) == 1:
+        elt, gens = source(e.args[0])
+        x = fresh()
+        return ast.GeneratorExp(elt=ast.Name(id=x, ctx=ast.Load()),
+                                generators=[*gens, ast.comprehension(target=ast.Name(id=x, ctx=ast.Store()), iter=clone(elt), ifs=[], is_async=0)])
+    return None
+
+
+def _pipeline(fi: FuncInfo | None, e: ast.AST) -> ast.AST:
+    """e itself, or - when e is a map / filter / chain.from_iterable pipeline - the generator expression that computes the same elements"""
+    e0 = strip_cast(e) if e is not None else None
+    if not isinstance(e0, ast.Call) or (chain(e0.func) or "").split(".")[-1] not in ("map", "filter", "from_iterable"):
+        return e
+    memo = fi.module.__dict__.setdefault("_c12_pipeline_views", {}) if fi is not None else {}
+    k = (id(e0), id(fi.node) if fi is not None else 0)
+    if k not in memo:
+        try:
+            g = _pipeline_build(fi, e0, [getattr(e0, "lineno", 0) * 10])
+        except Exception:  # noqa: BLE001
+            g = None
+        if g is not None:
+            for n in ast.walk(g):
+                if "lineno" in getattr(n, "_attributes", ()) and not hasattr(n, "lineno"):
+                    ast.copy_location(n, e0)
+            from ..model import set_parents
+            set_parents(g)
+            g._parent = parent(e0)  # type: ignore[attr-defined]
+        memo[k] = (g, e0)
+    return memo[k][0] if memo[k][0] is not None else e
+
+
+_EAGER = ("list", "tuple", "set", "frozenset", "sorted", "dict", "sum", "deque", "collections.deque")
+
+
+def _pipeline_views(fi: FuncInfo) -> list[ast.GeneratorExp]:
+    """the views of the pipelines of fi that are certainly run to the end (consumed by list(..) / "".join(..) / a for loop ...), outermost only"""
+    out = []
+    for n in walk_no_nested(fi.node):
+        if not isinstance(n, ast.Call) or (chain(n.func) or "").split(".")[-1] not in ("map", "filter", "from_iterable"):
+            continue
+        p_ = parent(n)
+        eager = (isinstance(p_, ast.Call) and n in p_.args and ((chain(p_.func) or "") in _EAGER or (isinstance(p_.func, ast.Attribute) and p_.func.attr in ("join", "extend", "update")))) \
+            or (isinstance(p_, (ast.For, ast.AsyncFor)) and p_.iter is n) or isinstance(p_, ast.YieldFrom)
+        if not eager:
+            continue
+        v = _pipeline(fi, n)
+        if v is not n and isinstance(v, ast.GeneratorExp):
+            out.append(v)
+    return out
+
+
+def _walk_with_views(fi: FuncInfo):
+    """walk_no_nested(fi.node) followed by the nodes of the pipeline views of fi"""
+    yield from walk_no_nested(fi.node)
+    for v in _pipeline_views(fi):
+        yield from ast.walk(v)
+
+
+def _calls_with_views(fi: FuncInfo) -> list[ast.Call]:
+    return calls(fi) + [n for v in _pipeline_views(fi) for n in ast.walk(v) if isinstance(n, ast.Call)]
 
 
 def _resolves_to(fi: FuncInfo, expr: ast.AST, pred, depth: int = 4) -> bool:
@@ -470,7 +707,13 @@ def _coll_ops(fi: FuncInfo, coll: str) -> list[tuple[ast.AST, str, ast.AST, ast.
     """
     want = "self." + coll
     out = []
-    for n in walk_no_nested(fi.node):
+    for n in _walk_with_views(fi):
+        if isinstance(n, ast.Call) and isinstance(n.func, ast.Call) and (chain(n.func.func) or "").split(".")[-1] == "methodcaller" and len(n.args) == 1 and not n.keywords:
+            # methodcaller("pop", key, None)(self.<coll>)
+            n2 = _fn_applied(fi, n.func, [n.args[0]])
+            if isinstance(n2, ast.Call) and want in _denotes(fi, n.args[0]):
+                out.append((n, n2.func.attr, n.args[0], arg(n2, 0)))
+            continue
         if isinstance(n, ast.Call) and isinstance(n.func, ast.Attribute):
             if want in _denotes(fi, n.func.value):
                 out.append((n, n.func.attr, n.func.value, arg(n, 0)))
@@ -518,7 +761,27 @@ def _must_op_nodes(ctx: Ctx, fi: FuncInfo, coll: str, want, skip_edge=None) -> l
         loop = _loop_binding(fi, recv)
         if loop is not None and _every_iteration(cfg, loop, cfg.nodes_for(n), skip_edge) and _exhaustive(cfg, loop):
             out += [h for h in cfg.nodes_for(loop) if h.kind == "loop"]
+        elif loop is None and _comp_applies_to_all(fi, n, recv):
+            out += cfg.nodes_for(n)
     return out
+
+
+def _comp_applies_to_all(fi: FuncInfo, node: ast.AST, recv: ast.AST) -> bool:
+    """node is the element expression of an unconditional comprehension (or pipeline view) that is run to the end, and recv is its variable
+    ranging over a literal of collections: the operation is applied to every collection of the literal
+    (`[m.pop(k, None) for m in (self.a, self.b)]`, `list(map(methodcaller("pop", k, None), (self.a, self.b)))`)"""
+    recv = strip_cast(recv)
+    if not isinstance(recv, ast.Name):
+        return False
+    comp = parent(node)
+    if not isinstance(comp, (ast.ListComp, ast.SetComp, ast.GeneratorExp)) or comp.elt is not node or len(comp.generators) != 1 or comp.generators[0].ifs:
+        return False
+    g = comp.generators[0]
+    if not (isinstance(g.target, ast.Name) and g.target.id == recv.id and _loop_values(fi, g.target, g.iter, recv.id)):
+        return False
+    if isinstance(comp, ast.GeneratorExp):
+        return any(v is comp for v in _pipeline_views(fi)) or (isinstance(parent(comp), ast.Call) and (chain(parent(comp).func) or "") in _EAGER)
+    return True
 
 
 # ------------------------------------------------------------------------------------------------------------------
@@ -563,8 +826,89 @@ def _callable_names(fi: FuncInfo, e: ast.AST, depth: int = 3) -> list[str] | Non
     return out or None
 
 
+_RUN_CTX: list = []      # the Ctx of the run in progress (set by run()): needed where a call is resolved without a ctx at hand
+
+
+class _BindFields(ast.NodeTransformer):
+    """`<self>.<field>` of a small helper object -> the expression the object was built with"""
+
+    def __init__(self, me: str, fields: dict[str, ast.AST]) -> None:
+        self.me, self.fields, self.ok = me, fields, True
+
+    def visit_Attribute(self, n: ast.Attribute):
+        if isinstance(n.value, ast.Name) and n.value.id == self.me:
+            if n.attr in self.fields and isinstance(n.ctx, ast.Load):
+                return clone(self.fields[n.attr])
+            self.ok = False
+            return n
+        return self.generic_visit(n)
+
+    def visit_Name(self, n: ast.Name):
+        if n.id == self.me:
+            self.ok = False
+        return n
+
+
+def _object_method_target(net, fi: FuncInfo, call: ast.Call) -> FuncInfo | None:
+    """
+    `Helper(self.a, self.b)(x)` / `h = Helper(self.a, self.b)` ... `h.run(x)`: a method of a small helper class of the same module whose
+    instance only closes over Network state (every constructor argument is a `self.<attr>` expression or a constant).  The method is read
+    as the private Network method it amounts to: its body with `<helper self>.<field>` replaced by the expression the field was built from.
+    The result is a NEW function node kept for this run only (the repository's trees and class model are not changed).
+    """
+    if not _RUN_CTX or fi.cls is not net:
+        return None
+    ctx = _RUN_CTX[0]
+    f = strip_cast(call.func)
+    if isinstance(f, ast.Attribute):
+        obj, mname = f.value, f.attr
+    else:
+        obj, mname = f, "__call__"
+    obj = strip_cast(obj)
+    if isinstance(obj, ast.Name) and obj.id not in fi.params() and obj.id != "self":
+        d = single_def(fi, obj.id)
+        obj = strip_cast(d[0]) if d is not None and d[1] is None else obj
+    if not isinstance(obj, ast.Call) or isinstance(obj.func, ast.Attribute) and isinstance(obj.func.value, ast.Name) and obj.func.value.id == "self":
+        return None
+    memo = ctx.__dict__.setdefault("_c12_object_methods", {})
+    k = (id(obj), mname)
+    if k in memo:
+        return memo[k]
+    memo[k] = None
+    cc = _ctor_components(ctx, fi.module, obj)
+    if cc is None or cc[3] is None or cc[3][1] is not fi.module:
+        return None
+    comps, _order, _imm, (cnode, _cmod) = cc
+    meth = next((st for st in cnode.body if isinstance(st, (ast.FunctionDef, ast.AsyncFunctionDef)) and st.name == mname), None)
+    if meth is None or meth.decorator_list or not meth.args.args or meth.args.vararg or meth.args.kwarg:
+        return None
+    for v in comps.values():
+        v0 = strip_cast(v)
+        closed = _is_const(const_value(v0)) or (isinstance(v0, ast.Attribute) and (chain(v0) or "").startswith("self."))
+        if not closed:
+            return None
+    me = meth.args.args[0].arg
+    new = clone(meth)
+    tr = _BindFields(me, comps)
+    new.body = [tr.visit(st) for st in new.body]
+    if not tr.ok or me != "self" and any(isinstance(n, ast.Name) and n.id == "self" for st in meth.body for n in ast.walk(st)):
+        return None
+    new.args.args[0].arg = "self"
+    new.name = f"_{cnode.name.lstrip('_')}_{mname.strip('_')}"
+    ast.fix_missing_locations(new)
+    from ..model import set_parents
+    set_parents(new)
+    new._parent = None  # type: ignore[attr-defined]
+    memo[k] = FuncInfo(name=new.name, qualname=f"{net.name}.{new.name}", node=new, module=fi.module, cls=net)
+    return memo[k]
+
+
 def _call_targets(net, fi: FuncInfo, call: ast.Call) -> list[FuncInfo]:
     """the methods of Network a call may run (empty: not a call of Network's own methods / not resolvable)"""
+    if not (isinstance(call.func, ast.Attribute) and isinstance(call.func.value, ast.Name) and call.func.value.id == "self"):
+        syn = _object_method_target(net, fi, call)
+        if syn is not None:
+            return [syn] if syn.node is not fi.node else []
     if isinstance(call.func, ast.Attribute) and not (isinstance(call.func.value, ast.Name) and call.func.value.id == "self"):
         return []
     names = _callable_names(fi, call.func)
@@ -676,8 +1020,9 @@ def _cases(e: ast.AST, pol: bool, limit: int = 24) -> list[list]:
     return [[fact_of(e, pol)]]
 
 
-def _result_test(f):
-    """fact f is a test of one value: (subject expression, accept(constant) -> bool, 'truthy' | 'falsy' | None)"""
+def _result_test(f, cv=const_value):
+    """fact f is a test of one value: (subject expression, accept(constant) -> bool, 'truthy' | 'falsy' | None); cv folds an expression
+    to a constant (const_value, or _cv: also members of plain Enums and module constants)"""
     if isinstance(f.left, (ast.For, ast.AsyncFor, ast.While)):
         return None
     if f.op == "truthy":
@@ -685,36 +1030,103 @@ def _result_test(f):
         while isinstance(left, ast.UnaryOp) and isinstance(left.op, ast.Not):
             left, pos = left.operand, not pos
         return left, (lambda c, pos=pos: bool(c) == pos), "truthy" if pos else "falsy"
-    if f.op == "is" and const_value(f.right) is None:
-        return f.left, (lambda c, pos=f.pos: (c is None) == pos), None
+    if f.op == "is":
+        for a_, b_ in ((f.left, f.right), (f.right, f.left)):
+            cr = cv(b_)
+            if cr is None or isinstance(cr, bool):
+                return a_, (lambda c, pos=f.pos, cr=cr: (c is cr) == pos), None
+            if isinstance(cr, _Tag):        # the members of an Enum are singletons: identity is equality
+                return a_, (lambda c, pos=f.pos, cr=cr: (c == cr) == pos), None
+        return None
     if f.op == "eq":
         for a_, b_ in ((f.left, f.right), (f.right, f.left)):
-            cv = const_value(b_)
-            if _is_const(cv):
-                return a_, (lambda c, pos=f.pos, cv=cv: (c == cv) == pos), None
+            c_ = cv(b_)
+            if _is_const(c_):
+                return a_, (lambda c, pos=f.pos, c_=c_: (c == c_) == pos), None
     if f.op == "in" and isinstance(strip_cast(f.right), (ast.Tuple, ast.List, ast.Set)):
-        vals = [const_value(x) for x in strip_cast(f.right).elts]
+        vals = [cv(x) for x in strip_cast(f.right).elts]
         if all(_is_const(v) for v in vals):
             return f.left, (lambda c, pos=f.pos, vals=vals: (c in vals) == pos), None
     return None
 
 
+def _test_of_fact(ctx: Ctx, fi: FuncInfo, f):
+    """_result_test with Enum members / module constants folded, plus `isinstance(<subject>, C)`: mode "isinstance", accept((ClassDef,
+    Module) | None) -> True / False / None(unknown) says whether an instance of that class (None: a constant) has the tested outcome"""
+    if f.op == "truthy" and not isinstance(f.left, (ast.For, ast.AsyncFor, ast.While)):
+        left, pos = f.left, f.pos
+        while isinstance(left, ast.UnaryOp) and isinstance(left.op, ast.Not):
+            left, pos = left.operand, not pos
+        left = strip_cast(left)
+        if isinstance(left, ast.Call) and chain(left.func) == "isinstance" and len(left.args) == 2 and not left.keywords:
+            view = _plain_view(ctx, fi)
+
+            def accept(cd, pos=pos, target=left.args[1]):
+                if cd is None:      # a constant is an instance of no class of this repository
+                    nm = [_last_name(x) for x in (target.elts if isinstance(target, ast.Tuple) else [target])]
+                    return (not pos) if all(n_ and _class_def(ctx, fi.module, n_) is not None for n_ in nm) else None
+                rel = view._is_subclass(cd, target)
+                return None if rel is None else rel == pos
+            return left.args[0], accept, "isinstance"
+    return _result_test(f, lambda x: _cv(ctx, fi, x))
+
+
+class _Tag:
+    """a member of a plain Enum class as a constant: equal to itself only, truthy"""
+    __slots__ = ("cls", "member")
+
+    def __init__(self, cls: str, member: str) -> None:
+        self.cls, self.member = cls, member
+
+    def __eq__(self, other) -> bool:
+        return isinstance(other, _Tag) and (self.cls, self.member) == (other.cls, other.member)
+
+    def __hash__(self) -> int:
+        return hash((self.cls, self.member))
+
+    def __bool__(self) -> bool:
+        return True
+
+    def __repr__(self) -> str:
+        return f"{self.cls}.{self.member}"
+
+
 def _is_const(v) -> bool:
-    return v is None or isinstance(v, (bool, int, float, str, bytes, tuple))
+    return v is None or isinstance(v, (bool, int, float, str, bytes, tuple, _Tag))
 
 
-def _subject_calls(fi: FuncInfo, subj: ast.AST, depth: int = 3) -> list[tuple[ast.Call, int | None]] | None:
-    """the calls whose result (or whose result's element i) the subject expression is, over ALL its definitions; None when it may be something else"""
+def _subject_path(e: ast.AST) -> tuple[str, tuple] | None:
+    """`x`, `x.f`, `x[0]`, `x["k"].f` ... -> (local name, component path), else None"""
+    path = []
+    e = strip_cast(e)
+    while True:
+        if isinstance(e, ast.Attribute):
+            path.append(e.attr)
+            e = strip_cast(e.value)
+        elif isinstance(e, ast.Subscript) and isinstance(const_value(e.slice), (int, str)) and not isinstance(const_value(e.slice), bool):
+            path.append(const_value(e.slice))
+            e = strip_cast(e.value)
+        else:
+            break
+    return (e.id, tuple(reversed(path))) if isinstance(e, ast.Name) else None
+
+
+def _subject_calls(fi: FuncInfo, subj: ast.AST, depth: int = 3) -> list[tuple[ast.Call, tuple]] | None:
+    """the calls whose result (or whose result's component `path`: element i / field name) the subject expression is, over ALL its
+    definitions; None when it may be something else"""
     subj = strip_cast(subj)
     if isinstance(subj, ast.NamedExpr):
         subj = strip_cast(subj.value)
     if isinstance(subj, ast.Await):
         subj = strip_cast(subj.value)
     if isinstance(subj, ast.Call):
-        return [(subj, None)]
-    if isinstance(subj, ast.Subscript) and isinstance(const_value(subj.slice), int):
+        return [(subj, ())]
+    if isinstance(subj, ast.Subscript) and isinstance(const_value(subj.slice), (int, str)) and not isinstance(const_value(subj.slice), bool):
         inner = _subject_calls(fi, subj.value, depth)
-        return None if inner is None or any(i is not None for _c, i in inner) else [(c, const_value(subj.slice)) for c, _i in inner]
+        return None if inner is None else [(c, (*p_, const_value(subj.slice))) for c, p_ in inner]
+    if isinstance(subj, ast.Attribute) and _subject_path(subj) is not None and _subject_path(subj)[0] not in ("self", "cls"):
+        inner = _subject_calls(fi, subj.value, depth)
+        return None if inner is None else [(c, (*p_, subj.attr)) for c, p_ in inner]
     if isinstance(subj, ast.Name) and depth > 0 and subj.id not in fi.params():
         out = []
         defs = local_defs(fi, subj.id)
@@ -722,15 +1134,775 @@ def _subject_calls(fi: FuncInfo, subj: ast.AST, depth: int = 3) -> list[tuple[as
             if v is None:
                 return None
             inner = _subject_calls(fi, v, depth - 1)
-            if inner is None or (idx is not None and any(i is not None for _c, i in inner)):
+            if inner is None:
                 return None
-            out += [(c, idx if idx is not None else i) for c, i in inner]
+            out += [(c, (*p_, idx) if idx is not None else p_) for c, p_ in inner]
         return out or None
     return None
 
 
-def _guarded(ctx: Ctx, net, fi: FuncInfo, site, who, edge_ok, depth: int = 2, extra=()) -> bool:
-    """every path from fi's entry to `site` takes an edge that establishes the requirement (edge_ok(fi, fact, who)), possibly decided by a helper"""
+# ------------------------------------------------------------------------------------------------------------------
+# decisions carried by VALUES.  A decision helper (inlined by the normaliser or not) may hand its verdict over as a value: a constant / an
+# Enum member, or a result object (tuple, NamedTuple, dataclass, small class, dict, SimpleNamespace) with such a tag in one component; the
+# caller then acts on `verdict.tag == X` / `match`.  On the CFG alone every definition of the verdict reaches every arm of the dispatch;
+# the paths that pair a definition with an arm its tag contradicts cannot be executed.  _Decisions tracks, along each path, which
+# definition of such a local is live (a product of CFG node and "which expression was bound last") and drops the condition outcomes
+# that the bound tag refutes.  Everything else (unknown values, calls, parameters) stays unconstrained, so the result is still an
+# over-approximation of the executable paths: "every path ..." questions asked through _reach remain necessary conditions.
+
+_LIB_BASES = ("object", "NamedTuple", "typing.NamedTuple", "Enum", "enum.Enum", "ABC", "abc.ABC", "Protocol", "typing.Protocol", "Generic", "typing.Generic")
+
+
+def _class_def(ctx: Ctx, module, name: str):
+    """(ClassDef, Module) of the class called `name` as seen from module (defined in it at any nesting level, or imported), else None"""
+    memo = ctx.__dict__.setdefault("_c12_classdefs", {})
+    k = (module.relpath, name)
+    if k not in memo:
+        found = [n for n in ast.walk(module.tree) if isinstance(n, ast.ClassDef) and n.name == name]
+        r = None
+        if len(found) == 1:
+            r = (found[0], module)
+        elif not found:
+            t = ctx.repo.resolve_name(module, name)
+            if t is not None and not isinstance(t, tuple) and isinstance(getattr(t, "node", None), ast.ClassDef):
+                r = (t.node, t.module)
+        memo[k] = r
+    return memo[k]
+
+
+def _last_name(e: ast.AST) -> str | None:
+    e = strip_cast(e)
+    if isinstance(e, ast.Subscript):        # Generic[T]
+        e = strip_cast(e.value)
+    return e.id if isinstance(e, ast.Name) else e.attr if isinstance(e, ast.Attribute) else None
+
+
+def _enum_members(ctx: Ctx, module, name: str):
+    """the member names of the plain Enum class `name` when its members are pairwise different values, else None"""
+    cd = _class_def(ctx, module, name)
+    if cd is None:
+        return None
+    node = cd[0]
+    if len(node.bases) != 1 or chain(node.bases[0]) not in ("Enum", "enum.Enum") or node.keywords:
+        return None
+    members, autos, consts = [], 0, []
+    for st in node.body:
+        if isinstance(st, ast.Expr) and isinstance(st.value, ast.Constant):
+            continue
+        if isinstance(st, ast.Pass):
+            continue
+        if isinstance(st, (ast.FunctionDef, ast.AsyncFunctionDef)):
+            if st.name in ("__eq__", "__ne__", "__bool__", "__hash__", "__new__", "_missing_", "__len__", "_generate_next_value_"):
+                return None
+            continue
+        if isinstance(st, ast.Assign) and len(st.targets) == 1 and isinstance(st.targets[0], ast.Name):
+            v = st.value
+            if isinstance(v, ast.Call) and chain(v.func) in ("auto", "enum.auto") and not v.args and not v.keywords:
+                autos += 1
+            else:
+                c = const_value(v)
+                if not _is_const(c) or any(c == o for o in consts):
+                    return None
+                consts.append(c)
+            members.append(st.targets[0].id)
+            continue
+        return None
+    if (autos and consts) or not members or len(set(members)) != len(members):
+        return None
+    return frozenset(members)
+
+
+def _cv(ctx: Ctx, fi: FuncInfo, e: ast.AST):
+    """constant folding for decision tags: literals, members of plain Enums, module / class constants (never a local or a parameter)"""
+    from ..model import NOCONST
+    e = strip_cast(e)
+    c = const_value(e)
+    if _is_const(c):
+        return c
+    if isinstance(e, ast.Attribute):
+        ch = (chain(e) or "").split(".")
+        if len(ch) >= 2 and all(x.isidentifier() for x in ch):
+            ms = _enum_members(ctx, fi.module, ch[-2])
+            if ms is not None:
+                return _Tag(ch[-2], ch[-1]) if ch[-1] in ms else NOCONST
+    if isinstance(e, ast.Name) and (e.id in fi.params() or local_defs(fi, e.id)):
+        return NOCONST
+    if isinstance(e, (ast.Name, ast.Attribute)):
+        try:
+            c = ctx.repo.resolve_const(fi.module, e, fi.cls)
+        except Exception:  # noqa: BLE001
+            return NOCONST
+        return c if _is_const(c) else NOCONST
+    return NOCONST
+
+
+def _record_of(ctx: Ctx, module, callee: ast.AST):
+    """
+    The callee of a constructor call builds a record whose components are its arguments: {"params": [(parameter, default expr | None)],
+    "fields": {field: parameter}, "consts": {field: expr}, "indexable": bool, "immutable": bool, "cls": (ClassDef, Module) | None}
+    - a NamedTuple / dataclass (no hand-written __init__ / __post_init__), a namedtuple("N", ..) factory result, or a small class whose
+    __init__ only stores its parameters / constants in attributes.  None when it is anything else.
+    """
+    name = _last_name(callee)
+    if name is None:
+        return None
+    memo = ctx.__dict__.setdefault("_c12_records", {})
+    k = (module.relpath, name)
+    if k in memo:
+        return memo[k]
+    memo[k] = None
+    cd = _class_def(ctx, module, name)
+    if cd is None:
+        t = ctx.repo.resolve_name(module, name) if isinstance(strip_cast(callee), ast.Name) else None
+        if isinstance(t, tuple) and t[0] == "const" and isinstance(t[2], ast.Call) and (chain(t[2].func) or "").split(".")[-1] in ("namedtuple", "NamedTuple") \
+                and len(t[2].args) >= 2:
+            spec = t[2].args[1]
+            names = None
+            if isinstance(const_value(spec), str):
+                names = const_value(spec).replace(",", " ").split()
+            elif isinstance(spec, (ast.List, ast.Tuple)):
+                names = [const_value(x) if isinstance(const_value(x), str) else const_value(x.elts[0]) if isinstance(x, ast.Tuple) and x.elts else None
+                         for x in spec.elts]
+            if names and all(isinstance(x, str) for x in names) and not any(kw.arg in ("defaults", "rename") for kw in t[2].keywords):
+                memo[k] = {"params": [(x, None) for x in names], "fields": {x: x for x in names}, "consts": {}, "indexable": True, "immutable": True, "cls": None}
+        return memo[k]
+    node = cd[0]
+    own = {st.name for st in node.body if isinstance(st, (ast.FunctionDef, ast.AsyncFunctionDef))}
+    bases = [chain(b) or "?" for b in node.bases]
+    decos = [(chain(d.func) if isinstance(d, ast.Call) else chain(d)) or "?" for d in node.decorator_list]
+    annotated = []
+    for st in node.body:
+        if isinstance(st, ast.AnnAssign) and isinstance(st.target, ast.Name) and "ClassVar" not in norm(st.annotation):
+            annotated.append((st.target.id, st.value))
+    if bases and all(b in ("NamedTuple", "typing.NamedTuple") for b in bases) and not decos:
+        if "__new__" in own or "__init__" in own or "__getattr__" in own or "__getattribute__" in own or "__getitem__" in own:
+            return None
+        memo[k] = {"params": annotated, "fields": {f_: f_ for f_, _d in annotated}, "consts": {}, "indexable": True, "immutable": True, "cls": cd}
+        return memo[k]
+    dc = [d for d in node.decorator_list if ((chain(d.func) if isinstance(d, ast.Call) else chain(d)) or "").split(".")[-1] == "dataclass"]
+    if dc and len(decos) == 1 and all(b in _LIB_BASES for b in bases):
+        if own & {"__init__", "__post_init__", "__new__", "__getattr__", "__getattribute__", "__setattr__"}:
+            return None
+        frozen = isinstance(dc[0], ast.Call) and any(kw.arg == "frozen" and const_value(kw.value) is True for kw in dc[0].keywords)
+        if isinstance(dc[0], ast.Call) and any(kw.arg in ("init", "kw_only") or kw.arg is None for kw in dc[0].keywords):
+            return None
+        params = []
+        for f_, d in annotated:
+            if isinstance(d, ast.Call) and (chain(d.func) or "").split(".")[-1] == "field":
+                if any(kw.arg in ("init", "kw_only") or kw.arg is None for kw in d.keywords):
+                    return None
+                d = next((kw.value for kw in d.keywords if kw.arg == "default"), None)
+                if d is None:
+                    d = _NO_DEFAULT
+            params.append((f_, d))
+        memo[k] = {"params": params, "fields": {f_: f_ for f_, _d in params}, "consts": {}, "indexable": False, "immutable": frozen, "cls": cd}
+        return memo[k]
+    if not decos and all(b in _LIB_BASES and b not in ("NamedTuple", "typing.NamedTuple", "Enum", "enum.Enum") for b in bases) and "__init__" in own \
+            and not own & {"__new__", "__getattr__", "__getattribute__", "__setattr__"} and not node.keywords:
+        init = next(st for st in node.body if isinstance(st, ast.FunctionDef) and st.name == "__init__")
+        a = init.args
+        if a.vararg or a.kwarg or a.posonlyargs or a.kwonlyargs or init.decorator_list or not a.args:
+            return None
+        names = [x.arg for x in a.args]
+        defaults = [None] * (len(names) - len(a.defaults)) + list(a.defaults)
+        fields, consts = {}, {}
+        for st in init.body:
+            if isinstance(st, ast.Expr) and isinstance(st.value, ast.Constant):
+                continue
+            if isinstance(st, ast.Pass):
+                continue
+            tgt = st.targets[0] if isinstance(st, ast.Assign) and len(st.targets) == 1 else st.target if isinstance(st, ast.AnnAssign) and st.value is not None else None
+            if not (isinstance(tgt, ast.Attribute) and isinstance(tgt.value, ast.Name) and tgt.value.id == names[0]) or tgt.attr in fields or tgt.attr in consts:
+                return None
+            v = strip_cast(st.value)
+            if isinstance(v, ast.Name) and v.id in names[1:]:
+                fields[tgt.attr] = v.id
+            elif _is_const(const_value(v)):
+                consts[tgt.attr] = v
+            else:
+                return None
+        # properties / class attributes of the same name would shadow nothing here: instance attributes win; methods are not components
+        memo[k] = {"params": list(zip(names[1:], defaults[1:])), "fields": fields, "consts": consts, "indexable": False, "immutable": False, "cls": cd}
+        return memo[k]
+    if not decos and not own & {"__new__", "__init__", "__getattr__", "__getattribute__"} and all(b in _LIB_BASES and b not in ("NamedTuple", "typing.NamedTuple", "Enum", "enum.Enum")
+                                                                                                  for b in bases) and not node.keywords:
+        # a plain marker class without state (`class _Refused: ...`): only its identity matters (isinstance)
+        memo[k] = {"params": [], "fields": {}, "consts": {}, "indexable": False, "immutable": False, "cls": cd}
+    return memo[k]
+
+
+_NO_DEFAULT = ast.Constant(value=Ellipsis)      # a field whose default is not syntactically known
+
+
+def _ctor_components(ctx: Ctx, module, call: ast.Call):
+    """(component -> expression, positional order | None, immutable, (ClassDef, Module) | None) for a call that builds a record, else None"""
+    if any(isinstance(a_, ast.Starred) for a_ in call.args) or any(kw.arg is None for kw in call.keywords):
+        return None
+    ch = chain(call.func) or ""
+    if ch in ("dict", "SimpleNamespace", "types.SimpleNamespace") and not call.args:
+        return {kw.arg: kw.value for kw in call.keywords}, None, False, None
+    rec = _record_of(ctx, module, call.func)
+    if rec is None:
+        return None
+    params = rec["params"]
+    if len(call.args) > len(params):
+        return None
+    bound = {}
+    for (p_, _d), a_ in zip(params, call.args):
+        bound[p_] = a_
+    for kw in call.keywords:
+        if kw.arg in bound or kw.arg not in [p_ for p_, _d in params]:
+            return None
+        bound[kw.arg] = kw.value
+    for p_, d in params:
+        if p_ not in bound and d is not None and d is not _NO_DEFAULT:
+            bound[p_] = d
+    comps = {f_: bound[p_] for f_, p_ in rec["fields"].items() if p_ in bound}
+    comps.update(rec["consts"])
+    order = [p_ for p_, _d in params] if rec["indexable"] else None
+    return comps, order, rec["immutable"], rec["cls"]
+
+
+class _Overflow(Exception):
+    pass
+
+
+_TRUE, _FALSE = ast.Constant(value=True), ast.Constant(value=False)       # what an outcome taught about a local's truth value
+
+
+class _Decisions:
+    """path-sensitive view of one function: see the section comment above"""
+    LIMIT = 40000
+
+    def __init__(self, ctx: Ctx, fi: FuncInfo) -> None:
+        self.ctx, self.fi = ctx, fi
+        self.cfg = ctx.cfg(fi)
+        self.tracked: set[str] = set()
+        self.tests: dict[tuple[int, bool], tuple] = {}
+        self.defs: dict[int, list[tuple[str, ast.AST | None, int | None]]] = {}
+        self._full = None
+        self._ndefs: dict[str, int] = {}
+        self._collect()
+
+    # -- which locals carry decisions, where are they bound, which condition outcomes test them
+    def _test_of(self, atom: ast.AST, lab: bool):
+        f = fact_of(atom, lab)
+        if f.op == "truthy":
+            left, pos = f.left, f.pos
+            while isinstance(left, ast.UnaryOp) and isinstance(left.op, ast.Not):
+                left, pos = left.operand, not pos
+            left = strip_cast(left)
+            if isinstance(left, ast.Call) and chain(left.func) == "isinstance" and len(left.args) == 2 and not left.keywords:
+                return ("isinstance", left.args[0], left.args[1], pos)
+        rt = _result_test(f, lambda x: _cv(self.ctx, self.fi, x))
+        if rt is None:
+            return None
+        return ("value", rt[0], rt[1], rt[2])
+
+    def _collect(self) -> None:
+        fi, cfg = self.fi, self.cfg
+        params = set(fi.params())
+        subjects: set[str] = set()
+        for n in cfg.nodes:
+            if n.kind != "cond" or n.ast is None:
+                continue
+            for lab in (True, False):
+                t = self._test_of(n.ast, lab)
+                if t is None:
+                    continue
+                sp = _subject_path(t[1])
+                if sp is None or sp[0] in ("self", "cls") or not local_defs(fi, sp[0]):
+                    continue
+                self.tests[(n.id, lab)] = t
+                subjects.add(sp[0])
+        for c in calls(fi):
+            if isinstance(c.func, ast.Attribute) and not (isinstance(c.func.value, (ast.Subscript, ast.Call))):
+                continue        # obj.method(...): not a computed callee
+            if isinstance(c.func, (ast.Name, ast.Subscript, ast.Call, ast.Attribute)):
+                # handler(peer) / TABLE[tag](peer) / TABLE.get(tag)(peer): which callable runs depends on the locals in the callee expression
+                subjects |= {n.id for n in ast.walk(c.func) if isinstance(n, ast.Name) and isinstance(n.ctx, ast.Load) and n.id not in ("self", "cls")
+                             and local_defs(fi, n.id)}
+        todo = sorted(subjects)
+        while todo and len(self.tracked) < 12:
+            x = todo.pop()
+            if x in self.tracked:
+                continue
+            defs = local_defs(fi, x)
+            if not defs or not self._trackable(x, defs):
+                continue
+            self.tracked.add(x)
+            self._ndefs[x] = len(defs) + (1 if x in params else 0)
+            for _st, v, _idx in defs:
+                if v is not None:
+                    todo += [n.id for n in ast.walk(v) if isinstance(n, ast.Name) and isinstance(n.ctx, ast.Load) and n.id not in self.tracked
+                             and n.id not in ("self", "cls") and local_defs(fi, n.id)]
+        self.tests = {k: t for k, t in self.tests.items() if _subject_path(t[1])[0] in self.tracked}
+        for x in self.tracked:
+            for st, v, idx in local_defs(fi, x):
+                for n in cfg.nodes_for(st):
+                    self.defs.setdefault(n.id, []).append((x, v, idx))
+        self._mut_safe = {x: self._component_reads_only(x) for x in self.tracked}
+
+    def _trackable(self, x: str, defs) -> bool:
+        """every binding of x is a statement with its own CFG node (no walrus inside a test, no nonlocal / global / del games)"""
+        fi, cfg = self.fi, self.cfg
+        for n in ast.walk(fi.node):
+            if isinstance(n, (ast.Nonlocal, ast.Global)) and x in n.names:
+                return False
+            if isinstance(n, ast.Name) and n.id == x and isinstance(n.ctx, ast.Del):
+                return False
+            if isinstance(n, ast.NamedExpr) and n.target.id == x:
+                return False
+            if isinstance(n, (ast.Match,)):
+                return False        # capture patterns bind names without a statement
+        for st, _v, _idx in defs:
+            ns = cfg.nodes_for(st)
+            if not ns:
+                return False
+            if isinstance(st, (ast.Assign, ast.AnnAssign, ast.AugAssign)) and any(n.ast is not st for n in ns):
+                return False
+        return True
+
+    def _component_reads_only(self, x: str) -> bool:
+        """x is only ever bound, compared and read by component (x.f / x[i]) - so a mutable record bound to it keeps its components"""
+        for n in ast.walk(self.fi.node):
+            if not (isinstance(n, ast.Name) and n.id == x and isinstance(n.ctx, ast.Load)):
+                continue
+            p_ = parent(n)
+            if isinstance(p_, (ast.Attribute, ast.Subscript)) and p_.value is n and isinstance(p_.ctx, ast.Load):
+                pp = parent(p_)
+                if isinstance(pp, ast.Call) and pp.func is p_:
+                    return False        # x.method(...)
+                continue
+            if isinstance(p_, ast.Compare) and all(isinstance(o, (ast.Is, ast.IsNot)) for o in p_.ops):
+                continue
+            if isinstance(p_, ast.Call) and chain(p_.func) == "isinstance" and p_.args and p_.args[0] is n:
+                continue
+            return False
+        return True
+
+    # -- abstract evaluation
+    def component(self, state: dict, e: ast.AST, path: tuple = (), now: bool = True, fuel: int = 12, as_name: bool = False):
+        """the sub-expression whose value the component `path` of the value of e is (under the bindings in state), else None.
+        as_name: stop at the first local the component was built from (`probe.peer` -> `cached`) instead of looking through its binding"""
+        ctx, fi = self.ctx, self.fi
+        while fuel > 0:
+            fuel -= 1
+            e = strip_cast(e)
+            if isinstance(e, ast.NamedExpr):
+                e = e.value
+                continue
+            if isinstance(e, ast.Name):
+                if as_name and not path and not now:
+                    return e if len(local_defs(fi, e.id)) + (1 if e.id in fi.params() else 0) == 1 else None
+                if e.id in self.tracked:
+                    if e.id not in state or (not now and self._ndefs.get(e.id, 2) != 1):
+                        return None
+                    e, now = state[e.id], False
+                    continue
+                if not now and len(local_defs(fi, e.id)) + (1 if e.id in fi.params() else 0) != 1:
+                    return None     # read out of a stored expression: the name may have been bound again since
+                return e if not path else None
+            if isinstance(e, (ast.Attribute, ast.Subscript)):
+                sp = _subject_path(e)
+                if sp is not None and sp[0] in self.tracked and sp[1]:
+                    e, path = ast.Name(id=sp[0], ctx=ast.Load()), sp[1] + tuple(path)
+                    continue
+                if isinstance(e, ast.Subscript) and not isinstance(e.slice, ast.Slice):
+                    # TABLE[key] with a key that is a known tag: the table's entry
+                    kx = self.component(state, e.slice, (), now, fuel)
+                    kc = _cv(ctx, fi, kx) if kx is not None else None
+                    if kx is not None and _is_const(kc) and not isinstance(kc, bool) and kc is not None:
+                        e, path = e.value, (kc, *path)
+                        continue
+                    return None if path else e
+                return e if not path else None
+            if isinstance(e, ast.Call) and isinstance(e.func, ast.Attribute) and e.func.attr == "get" and 1 <= len(e.args) <= 2 and not e.keywords:
+                # TABLE.get(key[, default]) on a dict display with a key that is a known tag
+                table = self.component(state, e.func.value, (), now, fuel)
+                table = strip_cast(table) if table is not None else None
+                if isinstance(table, ast.Dict):
+                    kx = self.component(state, e.args[0], (), now, fuel)
+                    kc = _cv(ctx, fi, kx) if kx is not None else None
+                    keys = [None if key is None else _cv(ctx, fi, key) for key in table.keys]
+                    if kx is None or not _is_const(kc) or kc is None or any(key is None for key in table.keys) \
+                            or not all(_is_const(c_) and c_ is not None for c_ in keys):
+                        return None if path else e
+                    hits = [v for c_, v in zip(keys, table.values) if c_ == kc and type(c_) is type(kc)]
+                    e = hits[-1] if hits else e.args[1] if len(e.args) == 2 else ast.Constant(value=None)
+                    now = False
+                    continue
+            if not path:
+                return e
+            k, rest = path[0], tuple(path[1:])
+            if isinstance(e, (ast.Tuple, ast.List)):
+                if isinstance(k, int) and not any(isinstance(x, ast.Starred) for x in e.elts) and -len(e.elts) <= k < len(e.elts):
+                    e, path = e.elts[k], rest
+                    continue
+                return None
+            if isinstance(e, ast.Dict):
+                keys = [None if key is None else _cv(ctx, fi, key) for key in e.keys]
+                if any(key is None for key in e.keys) or not all(_is_const(c_) and c_ is not None for c_ in keys):
+                    return None
+                hits = [v for c_, v in zip(keys, e.values) if c_ == k and type(c_) is type(k)]
+                if not hits:
+                    return None
+                e, path = hits[-1], rest
+                continue
+            if isinstance(e, ast.Call):
+                cc = _ctor_components(ctx, fi.module, e)
+                if cc is None:
+                    return None
+                comps, order, _imm, _cls = cc
+                if isinstance(k, int):
+                    if order is None or not -len(order) <= k < len(order):
+                        return None
+                    k = order[k]
+                if k not in comps:
+                    return None
+                e, path = comps[k], rest
+                continue
+            return None
+        return None
+
+    def _mutable(self, e: ast.AST) -> bool:
+        e = strip_cast(e)
+        if isinstance(e, (ast.Dict, ast.List, ast.Set, ast.ListComp, ast.SetComp, ast.DictComp)):
+            return True
+        if isinstance(e, ast.Call):
+            cc = _ctor_components(self.ctx, self.fi.module, e)
+            return cc is not None and not cc[2]
+        return False
+
+    def _after(self, u, state: dict) -> dict:
+        ds = self.defs.get(u.id)
+        if not ds:
+            return state
+        new = dict(state)
+        for x, v, idx in ds:
+            r = self.component(state, v, () if idx is None else (idx,)) if v is not None else None
+            if r is not None and self._mutable(r) and not self._mut_safe.get(x, False):
+                r = None
+            if r is None:
+                new.pop(x, None)
+            else:
+                new[x] = r
+            new.pop("?" + x, None)
+        return new
+
+    def _class_of(self, e: ast.AST):
+        e = strip_cast(e)
+        if isinstance(e, ast.Call):
+            cc = _ctor_components(self.ctx, self.fi.module, e)
+            if cc is not None and cc[3] is not None:
+                return cc[3]
+        return None
+
+    def _is_subclass(self, cd, target: ast.AST, fuel: int = 6):
+        """True / False / None (unknown): the class cd is (a subclass of) the class(es) named by the expression target"""
+        target = strip_cast(target)
+        if isinstance(target, ast.Tuple):
+            rs = [self._is_subclass(cd, x, fuel) for x in target.elts]
+            return True if any(r is True for r in rs) else None if any(r is None for r in rs) else False
+        nm = _last_name(target)
+        tc = _class_def(self.ctx, self.fi.module, nm) if nm else None
+        if tc is None:
+            return None
+
+        def up(c, fuel):
+            if c[0] is tc[0]:
+                return True
+            if fuel <= 0:
+                return None
+            unknown = False
+            for b in c[0].bases:
+                if (chain(b) or "?") in _LIB_BASES or (isinstance(b, ast.Subscript) and (chain(b.value) or "?") in _LIB_BASES):
+                    continue
+                bn = _last_name(b)
+                bc = _class_def(self.ctx, c[1], bn) if bn else None
+                if bc is None:
+                    unknown = True
+                    continue
+                r = up(bc, fuel - 1)
+                if r is True:
+                    return True
+                if r is None:
+                    unknown = True
+            return None if unknown else False
+        return up(cd, fuel)
+
+    def feasible(self, u, lab, state: dict) -> bool:
+        t = self.tests.get((u.id, lab))
+        if t is None:
+            return True
+        if t[0] == "isinstance":
+            r = self.component(state, t[1])
+            cd = self._class_of(r) if r is not None else None
+            if cd is None:
+                return True
+            rel = self._is_subclass(cd, t[2])
+            return True if rel is None else rel == t[3]
+        subj = strip_cast(t[1])
+        if t[3] is not None and isinstance(subj, ast.Name) and "?" + subj.id in state:
+            return (state["?" + subj.id] is _TRUE) == (t[3] == "truthy")
+        r = self.component(state, t[1])
+        if r is None:
+            return True
+        alts = _value_positions(r)
+        cs = [_cv(self.ctx, self.fi, a_) for a_ in alts]
+        if not all(_is_const(c) for c in cs) or (len(alts) > 1 and not isinstance(strip_cast(r), ast.IfExp)):
+            return True
+        try:
+            return any(bool(t[2](c)) for c in cs)
+        except Exception:  # noqa: BLE001
+            return True
+
+    def learn(self, u, lab, state: dict) -> dict:
+        """the bindings after taking outcome `lab` of condition u: a test of a plain local teaches its value (`tag == A` taken: tag is A)
+        or its truth value (`if flag:` taken: flag is truthy - until flag is bound again), so that testing the same local twice
+        (`if flag: a()` ... `if flag: b()`) does not pair contradicting outcomes"""
+        t = self.tests.get((u.id, lab))
+        if t is None or t[0] != "value":
+            return state
+        subj = strip_cast(t[1])
+        if not (isinstance(subj, ast.Name) and subj.id in self.tracked):
+            return state
+        r = self.component(state, subj)
+        if r is not None and _is_const(_cv(self.ctx, self.fi, r)):
+            return state        # already known exactly
+        f = fact_of(u.ast, lab)
+        new = None
+        if f.pos and f.op in ("eq", "is"):
+            other = f.right if strip_cast(f.left) is subj or (isinstance(strip_cast(f.left), ast.Name) and strip_cast(f.left).id == subj.id) else f.left
+            c = _cv(self.ctx, self.fi, other)
+            if isinstance(c, (_Tag, str, bytes)) or (f.op == "is" and (c is None or isinstance(c, bool))):
+                new = dict(state)
+                new[subj.id] = strip_cast(other)
+                new.pop("?" + subj.id, None)
+        elif t[3] is not None and self._fixed_truth(subj.id):
+            new = dict(state)
+            new["?" + subj.id] = _TRUE if t[3] == "truthy" else _FALSE
+        return new if new is not None else state
+
+    def _fixed_truth(self, x: str) -> bool:
+        """every binding of x is a value whose truth cannot change afterwards (a comparison / boolean / constant / tag - not a container
+        or an object that may be mutated between two tests of x)"""
+        memo = self.__dict__.setdefault("_fixed", {})
+        if x not in memo:
+            def fixed(v, fuel=4):
+                v = strip_cast(v) if v is not None else None
+                if v is None or fuel <= 0:
+                    return False
+                if isinstance(v, ast.Compare) or _is_const(_cv(self.ctx, self.fi, v)):
+                    return True
+                if isinstance(v, ast.UnaryOp) and isinstance(v.op, ast.Not):
+                    return True
+                if isinstance(v, ast.BoolOp):
+                    return all(fixed(o, fuel - 1) for o in v.values)
+                if isinstance(v, ast.IfExp):
+                    return fixed(v.body, fuel - 1) and fixed(v.orelse, fuel - 1)
+                if isinstance(v, ast.Call):
+                    return (chain(v.func) or "") in ("bool", "any", "all", "isinstance", "callable", "hasattr", "issubclass")
+                if isinstance(v, ast.Name) and v.id != x and v.id not in self.fi.params():
+                    ds = local_defs(self.fi, v.id)
+                    return bool(ds) and all(i is None and fixed(w, fuel - 1) for _s, w, i in ds)
+                return False
+            memo[x] = x not in self.fi.params() and all(idx is None and fixed(v) for _st, v, idx in local_defs(self.fi, x))
+        return memo[x]
+
+    def implied(self, u, lab, state: dict) -> list:
+        """
+        facts that the outcome `lab` of condition u implies beyond its own atom, because the tested local was bound to an expression
+        whose value decides the outcome: `flag = <test>` ... `if flag:` gives <test> (as it was when flag was bound - the same moment a
+        dominating `if <test>:` would have been evaluated); `tag = A if <test> else B` ... `if tag is A:` gives <test>
+        """
+        t = self.tests.get((u.id, lab))
+        if t is None or t[0] != "value":
+            return []
+        r = self.component(state, t[1])
+        if r is None:
+            return []
+        r = strip_cast(r)
+        accept, mode = t[2], t[3]
+        out = []
+        if isinstance(r, ast.IfExp):
+            ca, cb = _cv(self.ctx, self.fi, r.body), _cv(self.ctx, self.fi, r.orelse)
+            if _is_const(ca) and _is_const(cb):
+                try:
+                    oa, ob = bool(accept(ca)), bool(accept(cb))
+                except Exception:  # noqa: BLE001
+                    return []
+                if oa != ob:
+                    out += _atoms_with_polarity(r.test, oa)
+        elif mode is not None and isinstance(r, (ast.Compare, ast.BoolOp, ast.UnaryOp, ast.Call)) and not _is_const(_cv(self.ctx, self.fi, r)):
+            out += _atoms_with_polarity(r, mode == "truthy")
+        return out
+
+    # -- product search
+    @staticmethod
+    def _key(state: dict):
+        return tuple(sorted((x, id(e)) for x, e in state.items()))
+
+    def search(self, starts, cut_nodes=(), cut_edge=None, follow_exc: bool = True, cut_fact=None) -> dict:
+        """{CFG node id: {state key: state}} reachable from the (node, state) pairs in starts"""
+        cut_nodes = set(cut_nodes)
+        seen: dict[int, dict] = {}
+        todo = [(n, s) for n, s in starts if n not in cut_nodes]
+        count = 0
+        while todo:
+            u, s = todo.pop()
+            k = self._key(s)
+            at = seen.setdefault(u.id, {})
+            if k in at:
+                continue
+            at[k] = s
+            count += 1
+            if count > self.LIMIT:
+                raise _Overflow
+            s2 = None
+            for v, lab in u.succ:
+                if v in cut_nodes:
+                    continue
+                if lab == "exc":
+                    if not follow_exc:
+                        continue
+                    nxt = s
+                else:
+                    if s2 is None:
+                        s2 = self._after(u, s)
+                    nxt = s2
+                    if u.kind == "cond" and lab in (True, False):
+                        if not self.feasible(u, lab, s2):
+                            continue
+                        if cut_fact is not None and any(cut_fact(g) for g in self.implied(u, lab, s2)):
+                            continue
+                        nxt = self.learn(u, lab, s2)
+                if cut_edge is not None and cut_edge(u, v, lab):
+                    continue
+                todo.append((v, nxt))
+        return seen
+
+    def states_at(self, node) -> list[dict]:
+        """the bindings with which an executable path from the entry can arrive at node ([{}]: nothing known)"""
+        if self._full is None:
+            try:
+                self._full = self.search([(self.cfg.entry, {})])
+            except _Overflow:
+                self._full = {}
+        return list(self._full.get(node.id, {}).values()) or [{}]
+
+
+def _decisions(ctx: Ctx, fi: FuncInfo) -> "_Decisions | None":
+    memo = ctx.__dict__.setdefault("_c12_decisions", {})
+    k = id(fi.node)
+    if k not in memo:
+        try:
+            d = _Decisions(ctx, fi)
+        except AnalysisError:
+            raise
+        except Exception:  # noqa: BLE001  - the path-sensitive view only removes paths: without it the plain CFG is used
+            d = None
+        memo[k] = d if d is not None and d.tracked else None
+    return memo[k]
+
+
+def _reach(ctx: Ctx, fi: FuncInfo, starts=None, *, cut_nodes=(), cut_edge=None, follow_exc: bool = True, states: dict | None = None, cut_fact=None,
+           after=None) -> set:
+    """cfg.reach() without the paths that a value-carried decision refutes (see _Decisions); identical to cfg.reach() when the function
+    has no such decision.  states (out): {node id: [bindings an executable path arrives with]} when the function has decisions"""
+    cfg = ctx.cfg(fi)
+    d = _decisions(ctx, fi)
+    if after is not None:       # start behind the normal completion of these (statement) nodes, with the bindings they are reached with
+        starts = [v for n in after for v, lab in n.succ if lab != "exc"]
+    if d is None:
+        return cfg.reach(starts, cut_nodes=cut_nodes, cut_edge=cut_edge, follow_exc=follow_exc)
+    try:
+        if after is not None:
+            init = [(v, d._after(n, s)) for n in after for s in d.states_at(n) for v, lab in n.succ if lab != "exc" and lab not in (True, False)]
+            init += [(v, s) for n in after for v, lab in n.succ if lab in (True, False) for s in d.states_at(v)]
+        elif starts is None:
+            init = [(cfg.entry, {})]
+        else:
+            init = [(n, s) for n in starts for s in d.states_at(n)]
+        seen = d.search(init, cut_nodes, cut_edge, follow_exc, cut_fact)
+    except _Overflow:
+        return cfg.reach(starts, cut_nodes=cut_nodes, cut_edge=cut_edge, follow_exc=follow_exc)
+    except AnalysisError:
+        raise
+    except Exception:  # noqa: BLE001  - see _decisions()
+        ctx.__dict__.setdefault("_c12_decisions", {})[id(fi.node)] = None
+        return cfg.reach(starts, cut_nodes=cut_nodes, cut_edge=cut_edge, follow_exc=follow_exc)
+    if states is not None:
+        states.update({k: list(v.values()) for k, v in seen.items()})
+    return {n for n in cfg.nodes if n.id in seen}
+
+
+def _may_call(ctx: Ctx, fi: FuncInfo, call: ast.Call, t: FuncInfo, state: dict) -> bool:
+    """with the bindings in state, can the (computed) callee of `call` be Network method t?  (a callable picked from a dispatch table by a
+    known tag is that entry, not any entry)"""
+    d = _decisions(ctx, fi)
+    if d is None:
+        return True
+    r = d.component(state, call.func)
+    r = strip_cast(r) if r is not None else None
+    if r is None:
+        return True
+    if isinstance(r, ast.Attribute) and isinstance(r.value, ast.Name) and r.value.id == "self":
+        return r.attr == t.name
+    if _is_const(const_value(r)):
+        return False        # None / a constant is not callable: this binding cannot complete the call
+    return True
+
+
+def _facts_here(ctx: Ctx, fi: FuncInfo, site) -> list:
+    """
+    match.facts_at() on the EXECUTABLE paths: the condition outcomes every executable path to the site took (the engine's cut-an-edge
+    test, asked through _reach, so paths refuted by a value-carried decision do not count).  An outcome that only tests a verdict local
+    whose value is known on every arriving path says nothing beyond "which path was taken" and is left out; what such an outcome implies
+    through the expression the local was bound to (`flag = <test>` / `tag = A if <test> else B`) is added instead.
+    """
+    cfg = ctx.cfg(fi)
+    d = _decisions(ctx, fi)
+    if d is None:
+        return facts_at(cfg, site)
+    nodes = cfg.nodes_for(site) if isinstance(site, ast.AST) else [site]
+    live = _reach(ctx, fi)
+    nodes = [n for n in nodes if n in live]
+    if not nodes:
+        return facts_at(cfg, site)
+    out = list(expr_context_facts(site)) if isinstance(site, ast.AST) else []
+    for c in cfg.nodes:
+        if c.kind != "cond" or c.ast is None or c in nodes or c not in live:
+            continue
+        for pol in (True, False):
+            if not any(lab is pol for _v, lab in c.succ):
+                continue
+            r2 = _reach(ctx, fi, cut_edge=lambda u, v, lab, c=c, pol=pol: u is c and lab is pol)
+            if any(n in r2 for n in nodes):
+                continue
+            f = fact_of(c.ast, pol)
+            t = d.tests.get((c.id, pol))
+            if t is None or t[0] != "value":
+                out.append(f)
+                continue
+            states = [s_ for s_ in d.states_at(c) if d.feasible(c, pol, s_)]
+            explained, common = bool(states), None
+            for s_ in states:
+                r = d.component(s_, t[1])
+                imp = d.implied(c, pol, s_)
+                if not imp and not (r is not None and _is_const(_cv(ctx, fi, r))):
+                    explained = False
+                mine = {(ast.dump(g.atom), g.pos): g for g in imp}
+                common = mine if common is None else {k: v for k, v in common.items() if k in mine}
+            if not explained:
+                out.append(f)
+            out += list((common or {}).values())
+    return out
+
+
+def _guarded(ctx: Ctx, net, fi: FuncInfo, site, who, edge_ok, depth: int = 2, extra=(), leads_to: FuncInfo | None = None) -> bool:
+    """every path from fi's entry to `site` takes an edge that establishes the requirement (edge_ok(fi, fact, who)), possibly decided by a helper.
+    leads_to: the site is a call and only the executions in which it runs that method matter (computed callee picked by a tag)"""
     cfg = ctx.cfg(fi)
     memo: dict = {}
 
@@ -760,76 +1932,118 @@ def _guarded(ctx: Ctx, net, fi: FuncInfo, site, who, edge_ok, depth: int = 2, ex
 
     def cut(u, v, lab):
         return u.kind in ("cond", "loop") and lab in (True, False) and u.ast is not None and est(fact_of(u.ast, lab))
-    r = cfg.reach(cut_edge=cut)
-    return not any(n in r for n in nodes)
+    states: dict = {}
+    r = _reach(ctx, fi, cut_edge=cut, states=states, cut_fact=est)
+    hit = [n for n in nodes if n in r]
+    if hit and leads_to is not None and isinstance(site, ast.Call) and states:
+        return not any(_may_call(ctx, fi, site, leads_to, s_) for n in hit for s_ in states.get(n.id, [{}]))
+    return not hit
 
 
 def _decided_by_helper(ctx: Ctx, net, fi: FuncInfo, f, who, edge_ok, depth: int) -> bool:
     """fact f tests the result of one of Network's own methods, and every `return` of it that is compatible with f establishes the requirement"""
-    rt = _result_test(f)
+    rt = _test_of_fact(ctx, fi, f)
     if rt is None:
         return False
     subj, accept, mode = rt
     subjects = _subject_calls(fi, subj)
     if not subjects:
         return False
-    for call, idx in subjects:
+    for call, path in subjects:
         targets = _call_targets(net, fi, call)
         if not targets:
             return False
         for t in targets:
-            if not _returns_establish(ctx, net, t, idx, accept, mode, _bind(fi, call, t, who), edge_ok, depth):
+            if not _returns_establish(ctx, net, t, path, accept, mode, _bind(fi, call, t, who), edge_ok, depth):
                 return False
     return True
 
 
-def _compatible_returns(t: FuncInfo, idx, accept, mode) -> list[tuple[ast.Return, list[list]]]:
-    """(return statement, alternatives) for every `return` of t whose value (element idx of it) may be compatible with the tested
-    outcome; each alternative is the list of atom facts that hold when the returned expression has the outcome"""
+def _compatible_returns(ctx: Ctx, t: FuncInfo, path, accept, mode) -> list[tuple[ast.Return, list[list]]]:
+    """(return statement, alternatives) for every `return` of t whose value (its component `path`: tuple element / record field) may be
+    compatible with the tested outcome; each alternative is the list of atom facts that hold when the returned expression has the outcome"""
     out = []
+    path = tuple(path or ())
+    d = _decisions(ctx, t) or _plain_view(ctx, t)
+    cfg = ctx.cfg(t)
     for r in [n for n in walk_no_nested(t.node) if isinstance(n, ast.Return)]:
-        v = r.value
-        known = True
-        if idx is not None:
-            tv = strip_cast(v) if v is not None else None
-            if isinstance(tv, ast.Tuple) and idx < len(tv.elts) and not any(isinstance(x, ast.Starred) for x in tv.elts):
-                v = tv.elts[idx]
-            else:
-                known = False
-        cases: list[list] = [[]]
-        if known:
-            c = None if v is None else const_value(strip_cast(v))
+        if r.value is None:
+            vs = [None] if not path else [_UNKNOWN]
+        else:
+            # the returned component under every binding of t's own decision locals an executable path can arrive with
+            states = [s for n in cfg.nodes_for(r) for s in d.states_at(n)] if d.tracked else [{}]
+            vs = []
+            for s in states or [{}]:
+                c_ = d.component(s, r.value, path)
+                vs.append(_UNKNOWN if c_ is None else c_)
+        cases: list[list] = []
+        compatible = False
+        if mode == "isinstance":
+            for v in vs:
+                if v is _UNKNOWN:
+                    compatible = True
+                elif v is None or _is_const(_cv(ctx, t, v)):
+                    compatible = compatible or accept(None) is not False
+                else:
+                    cd = d._class_of(v)
+                    compatible = compatible or cd is None or accept(cd) is not False
+            if compatible:
+                out.append((r, [[]]))
+            continue
+        for v in vs:
+            if v is _UNKNOWN:
+                compatible, cases = True, [[]]
+                break
+            c = None if v is None else _cv(ctx, t, v)
             if _is_const(c):
-                if not accept(c):
-                    continue
-            elif mode is not None:
+                if accept(c):
+                    compatible = True
+                    cases = cases or [[]]
+                continue
+            compatible = True
+            if mode is not None and len(vs) == 1:
                 cases = _cases(v, mode == "truthy")
-        out.append((r, cases))
+            else:
+                cases = [[]]
+                break
+        if compatible:
+            out.append((r, cases or [[]]))
     return out
 
 
-def _falls_off_end(ctx: Ctx, t: FuncInfo, cut_edge=None) -> bool:
+_UNKNOWN = object()
+
+
+def _plain_view(ctx: Ctx, t: FuncInfo) -> "_Decisions":
+    """a _Decisions object for a function without decision locals: component() still looks into tuple displays / record constructors"""
+    memo = ctx.__dict__.setdefault("_c12_plain_views", {})
+    if id(t.node) not in memo:
+        d = _Decisions.__new__(_Decisions)
+        d.ctx, d.fi, d.cfg = ctx, t, ctx.cfg(t)
+        d.tracked, d.tests, d.defs, d._full, d._ndefs, d._mut_safe = set(), {}, {}, {}, {}, {}
+        memo[id(t.node)] = d
+    return memo[id(t.node)]
+
+
+def _falls_off_end(ctx: Ctx, t: FuncInfo, cut_edge=None, cut_fact=None) -> bool:
     """the end of t's body can be reached without a `return` (the call then yields None)"""
     cfg = ctx.cfg(t)
     rets = [n for r in walk_no_nested(t.node) if isinstance(r, ast.Return) for n in cfg.nodes_for(r)]
-    return cfg.exit in cfg.reach(cut_nodes=rets, cut_edge=cut_edge, follow_exc=False)
+    return cfg.exit in _reach(ctx, t, cut_nodes=rets, cut_edge=cut_edge, follow_exc=False, cut_fact=cut_fact)
 
 
-def _returns_establish(ctx: Ctx, net, t: FuncInfo, idx, accept, mode, who, edge_ok, depth: int) -> bool:
+def _returns_establish(ctx: Ctx, net, t: FuncInfo, path, accept, mode, who, edge_ok, depth: int) -> bool:
     if any(isinstance(n, (ast.Yield, ast.YieldFrom)) for n in walk_no_nested(t.node)):
         return False
-    for r, cases in _compatible_returns(t, idx, accept, mode):
+    for r, cases in _compatible_returns(ctx, t, path, accept, mode):
         for case in cases:
             if not _guarded(ctx, net, t, r, who, edge_ok, depth, extra=case):
                 return False
-    if idx is None and accept(None):
+    if not path and (accept(None) if mode != "isinstance" else accept(None) is not False):
         # falling off the end returns None, which is compatible with the outcome: the end must not be reachable around the requirement
         memo: dict = {}
 
-        def cut(u, v, lab):
-            if not (u.kind in ("cond", "loop") and lab in (True, False) and u.ast is not None):
-                return False
-            f = fact_of(u.ast, lab)
+        def cut_f(f):
             k = (id(f.atom), f.pos)
             if k not in memo:
                 try:
@@ -839,7 +2053,12 @@ def _returns_establish(ctx: Ctx, net, t: FuncInfo, idx, accept, mode, who, edge_
                 except Exception:  # noqa: BLE001
                     memo[k] = False
             return memo[k]
-        if _falls_off_end(ctx, t, cut):
+
+        def cut(u, v, lab):
+            if not (u.kind in ("cond", "loop") and lab in (True, False) and u.ast is not None):
+                return False
+            return cut_f(fact_of(u.ast, lab))
+        if _falls_off_end(ctx, t, cut, cut_f):
             return False
     return True
 
@@ -902,7 +2121,7 @@ def _helper_facts(ctx: Ctx, net, fi: FuncInfo, f, depth: int = 1) -> list:
     Fact f tests the result of one of Network's own methods (a predicate / decision helper that could not be inlined): the facts, in the
     caller's terms, that hold at EVERY `return` of the helper compatible with the tested outcome.  [] when f is not such a test.
     """
-    rt = _result_test(f)
+    rt = _test_of_fact(ctx, fi, f)
     if rt is None:
         return []
     subj, accept, mode = rt
@@ -920,10 +2139,10 @@ def _helper_facts(ctx: Ctx, net, fi: FuncInfo, f, depth: int = 1) -> list:
             binding = _call_binding(t, call)
             cfg = ctx.cfg(t)
             alts: list[list] = []
-            for r, cases in _compatible_returns(t, idx, accept, mode):
-                here = facts_at(cfg, r)
+            for r, cases in _compatible_returns(ctx, t, idx, accept, mode):
+                here = _facts_here(ctx, t, r)
                 alts += [here + case for case in cases]
-            if idx is None and accept(None) and _falls_off_end(ctx, t):
+            if not idx and (accept(None) if mode != "isinstance" else accept(None) is not False) and _falls_off_end(ctx, t):
                 alts.append([])
             for facts in alts:
                 if depth > 0:
@@ -1010,6 +2229,35 @@ def _who_up(frames, inner):
     return list(reversed(out))
 
 
+class _SeeThrough(ast.NodeTransformer):
+    """replace every component read of a verdict local (`probe.peer`, `outcome[1]`) by the local the component was built from"""
+
+    def __init__(self, dec: "_Decisions", state: dict) -> None:
+        self.dec, self.state, self.changed = dec, state, False
+
+    def visit(self, node):
+        if isinstance(node, (ast.Attribute, ast.Subscript)) and isinstance(getattr(node, "ctx", None), ast.Load):
+            sp = _subject_path(node)
+            if sp is not None and sp[1] and sp[0] in self.dec.tracked:
+                r = self.dec.component(self.state, node, as_name=True)
+                if isinstance(r, ast.Name):
+                    self.changed = True
+                    return ast.Name(id=r.id, ctx=ast.Load())
+        return self.generic_visit(node)
+
+
+def _see_fact(dec: "_Decisions", state: dict, f):
+    """fact f with the component reads of verdict locals replaced by what they were built from (same truth value on this path)"""
+    if isinstance(f.left, (ast.For, ast.AsyncFor, ast.While)) or not any(isinstance(n, ast.Name) and n.id in dec.tracked for n in ast.walk(f.atom)):
+        return f
+    tr = _SeeThrough(dec, state)
+    atom = tr.visit(clone(f.atom))
+    if not tr.changed:
+        return f
+    pol = fact_of(f.atom, True).pos == f.pos
+    return fact_of(ast.fix_missing_locations(atom), pol)
+
+
 class _ReaderFlow:
     """
     Where does a value taken out of a cache (self.<index>) flow to inside one function, and is it re-validated against the
@@ -1042,6 +2290,8 @@ class _ReaderFlow:
         self._sub_memo: dict = {}
         self.events: dict[str, list[tuple[ast.stmt, str]]] = {}
         self.problems: list[str] = []
+        self.failed: dict[str, list[str]] = {}       # required fact (label) -> the returns that are reached without it
+        self._label: str | None = None
         self.validated: list[str] = []
         self.why: dict[int, str] = {}
         self.loop_events: list[tuple[str, ast.stmt, str]] = []
@@ -1083,7 +2333,10 @@ class _ReaderFlow:
                 sub = _ReaderFlow(self.ctx, t, self.index, self.kind, self.required, self.helpers, (seeds, keys, key_bins), self.depth - 1).run()
                 self._sub_memo[memo] = sub
             sub = self._sub_memo[memo]
-            if sub is None or sub.problems:
+            # while one required fact is being followed (self._label), only what the helper leaves open about THAT fact counts: a helper
+            # may establish one fact and leave the other to its caller
+            open_ = sub.problems if sub is not None and (self._label is None or self.kind != "elem") else sub.failed.get(self._label, []) if sub is not None else None
+            if sub is None or open_:
                 if sub is not None:
                     self.why[id(e)] = f"{t.name}: " + "; ".join(sub.problems)[:160]
                 return False
@@ -1111,7 +2364,7 @@ class _ReaderFlow:
         return not self._clean_filter(e)
 
     def _clean_filter(self, value: ast.AST) -> bool:
-        v = _unwrap(value)
+        v = _unwrap(_pipeline(self.fi, _unwrap(value)))
         if not isinstance(v, (ast.ListComp, ast.SetComp, ast.GeneratorExp)):
             return False
         if self._mentions(v.elt) and not any(isinstance(g.target, ast.Name) and _is_name(v.elt, g.target.id) for g in v.generators):
@@ -1142,7 +2395,7 @@ class _ReaderFlow:
         while changed and rounds < 10:
             changed = False
             rounds += 1
-            self.problems, self.validated, self.loop_events = [], [], []
+            self.problems, self.validated, self.loop_events, self.failed = [], [], [], {}
             events: dict[str, list[tuple[ast.stmt, str]]] = {}
             for name in sorted(names):
                 for st, v, idx in local_defs(fi, name):
@@ -1177,7 +2430,7 @@ class _ReaderFlow:
                     sink, what = "<result>", n
                 if sink is None:
                     continue
-                facts = self.expand(facts_at(cfg, what))
+                facts = self.expand(_facts_here(self.ctx, fi, what))
                 missing = self.required(self, e, facts)
                 validated_calls.add(id(what))
                 if missing:
@@ -1208,13 +2461,22 @@ class _ReaderFlow:
             return True
         return False
 
+    def _leaves_open(self, raw, label) -> bool:
+        """the cache read `raw` hands the value out without `label` established (a helper call: unless the helper establishes it)"""
+        if isinstance(raw, ast.Call) and label:
+            for h in self.helpers:
+                if chain(raw.func) == f"self.{h}":
+                    open_ = self.ctx.__dict__.get("_c12_helper_open", {}).get((self.index, h))
+                    return open_ is None or label in open_
+        return True
+
     def _carried_by(self, e: ast.AST, holders, pred=None) -> bool:
         """the value of e is (elem) / contains members of (list) what the locals in `holders` hold or what a cache read yields"""
         if e is None:
             return False
         if self.kind == "elem":
             for p in _value_positions(e):
-                if id(p) in self.raw_ids or _is_name(p, holders) or self._clean_call(p, lambda a_: self._carried_by(a_, holders, pred)) is False:
+                if (id(p) in self.raw_ids and self._leaves_open(p, self._label)) or _is_name(p, holders) or self._clean_call(p, lambda a_: self._carried_by(a_, holders, pred)) is False:
                     # `hit if hit in self.verified_peers and ... else None`: the position is only evaluated under these facts
                     if not any(self._miss_fact(f, holders) or (pred is not None and pred(f, holders)) for f in self.expand(expr_context_facts(p))):
                         return True
@@ -1285,9 +2547,28 @@ class _ReaderFlow:
         source; `b = a` makes b a further holder.  Reaching `return <holder>` is a path that returns the cache entry unvalidated.
         """
         fi, cfg = self.fi, self.cfg
+        dec = _decisions(self.ctx, fi)       # value-carried decisions: which binding of a verdict local is live on the path
+
+        def seen_through(e, st):
+            """`probe.peer` with probe bound to _Lookup(.., cached) on this path is `cached`"""
+            if dec is None or e is None:
+                return e
+            r_ = dec.component(st, e, as_name=True)
+            return r_ if isinstance(r_, ast.Name) and not (isinstance(strip_cast(e), ast.Name) and strip_cast(e).id == r_.id) else e
+
+        def edge_facts(n, lab, st):
+            fs = [fact_of(n.ast, lab)]
+            if dec is not None:
+                fs += dec.implied(n, lab, st)
+                fs = [_see_fact(dec, st, f) for f in fs]
+            return self.expand(fs)
+        leaves_open = self._leaves_open
+        raw_returns = []
         for r in [n for n in walk_no_nested(fi.node) if isinstance(n, ast.Return) and n.value is not None]:
-            if any(id(p) in self.raw_ids or (self.kind == "list" and id(_unwrap(p)) in self.raw_ids) for p in _value_positions(r.value)):
+            hits = [p for p in _value_positions(r.value) if id(p) in self.raw_ids or (self.kind == "list" and id(_unwrap(p)) in self.raw_ids)]
+            if hits:
                 self.problems.append(f"`{norm(r)[:80]}` returns the cache entry itself")
+                raw_returns.append((norm(r)[:60], [p if id(p) in self.raw_ids else _unwrap(p) for p in hits]))
         origins = [(n, frozenset(), f"`{norm(enclosing_stmt(raw))[:80]}`") for raw in self.raws for n in cfg.nodes_for(raw)]
         if self.seeds:      # followed from a caller: the parameters hold the cached value from the start
             origins.append((cfg.entry, self.seeds, "the cached value handed in as " + "/".join(sorted(self.seeds))))
@@ -1295,19 +2576,28 @@ class _ReaderFlow:
             origins += [(n, frozenset({name}), msg) for n in cfg.nodes_for(st)]
         wanted = self.required(self, None, None) if self.kind == "elem" else [("", None)]
         for label, pred in wanted:
+            self._label = label or None
+            for txt_, hits_ in raw_returns:
+                if any(leaves_open(h_, label) for h_ in hits_):
+                    self.failed.setdefault(label, []).append(txt_)
             bad = set()
             seen = set()
-            todo = list(origins)
+            skip = {id(n) for raw in self.raws if not leaves_open(raw, label) for n in cfg.nodes_for(raw)}
+            todo = [(n, held, src, st) for n, held, src in origins if not (id(n) in skip and not held) for st in (dec.states_at(n) if dec is not None else [{}])]
             origin_nodes = {id(n) for n, _, _ in origins}
             while todo:
-                n, held, src = todo.pop()
-                if (n.id, held) in seen:
+                n, held, src, st = todo.pop()
+                sk = dec._key(st) if dec is not None else ()
+                if (n.id, held, sk) in seen:
                     continue
-                seen.add((n.id, held))
+                seen.add((n.id, held, sk))
+                if len(seen) > 60000:
+                    raise AnalysisError(f"undecided: too many path states in {fi.qualname} while following the cached {self.index} value")
                 if isinstance(n.ast, ast.Return) and n.kind == "stmt":
                     if n.ast.value is not None:
                         for p in _value_positions(n.ast.value):
                             q = _unwrap(p) if self.kind == "list" else strip_cast(p)
+                            q = seen_through(q, st)
                             if not (_is_name(q, held) or (self.kind == "list" and self._carried_by(q, held))):
                                 continue
                             cf = self.expand(expr_context_facts(p))
@@ -1325,24 +2615,32 @@ class _ReaderFlow:
                                 and not (self.kind == "list" and isinstance(n.ast.value, ast.Yield)):
                             bad.add((norm(n.ast)[:60], src))
                 for name, v, keeps in self._defs_at(n):
-                    if self._carried_by(v, held, pred):
+                    if self._carried_by(seen_through(v, st), held, pred):
                         held = held | {name}
                     elif not keeps:
                         held = held - {name}
                 if not held:
                     continue
+                st2 = dec._after(n, st) if dec is not None else st
                 for v, lab in n.succ:
                     if lab == "exc":
                         continue
                     if n.kind == "cond" and lab in (True, False):
-                        if any(self._miss_fact(f, held) or (pred is not None and pred(f, held)) for f in self.expand([fact_of(n.ast, lab)])):
+                        if dec is not None and not dec.feasible(n, lab, st2):
                             continue
-                    todo.append((v, held, src))
+                        if any(self._miss_fact(f, held) or (pred is not None and pred(f, held)) for f in edge_facts(n, lab, st2)):
+                            continue
+                        if dec is not None:
+                            todo.append((v, held, src, dec.learn(n, lab, st2)))
+                            continue
+                    todo.append((v, held, src, st2))
             for ret, src in sorted(bad):
+                self.failed.setdefault(label, []).append(ret)
                 self.problems.append(f"a path from the cache read ({src[:120]}) reaches `{ret}`" +
                                      (f" without establishing {label}" if label else " with the unvalidated cached list"))
             if not bad and label and seen:
                 self.validated.append(f"every path returning the cached value establishes {label}")
+        self._label = None
 
 
 def _ip_required(flow: _ReaderFlow, _group, _facts):
@@ -1352,12 +2650,38 @@ def _ip_required(flow: _ReaderFlow, _group, _facts):
     def still_verified(f, held):
         return f.op == "in" and f.pos and _is_name(f.left, held) and chain(_unwrap(f.right)) == "self.verified_peers"
 
+    def addresses_of_held(x, held):
+        return _resolves_to(fi, _unwrap(x), lambda y: isinstance(_unwrap(y), ast.Call)
+                            and any(chain(_unwrap(y).func) == f"{g}.addresses.values" for g in held))
+
     def still_uses(f, held):
+        if f.op == "truthy" and f.pos and isinstance(strip_cast(f.left), ast.Call) and chain(strip_cast(f.left).func) == "any" and len(strip_cast(f.left).args) == 1:
+            # any(a == key for a in cached.addresses.values())
+            g = strip_cast(f.left).args[0]
+            if isinstance(g, (ast.GeneratorExp, ast.ListComp, ast.SetComp)) and len(g.generators) == 1 and not g.generators[0].ifs \
+                    and isinstance(g.generators[0].target, ast.Name) and addresses_of_held(g.generators[0].iter, held):
+                a_ = g.generators[0].target.id
+                return any(h.op == "eq" and h.pos and ((_is_name(h.left, a_) and any(same_resolved(fi, h.right, k) for k in flow.keys))
+                                                       or (_is_name(h.right, a_) and any(same_resolved(fi, h.left, k) for k in flow.keys)))
+                           for h in _atoms_with_polarity(g.elt, True))
+            return False
+        if f.op == "eq" and f.pos:
+            # for a in cached.addresses.values(): if a == key: <hit>
+            for a_, b_ in ((f.left, f.right), (f.right, f.left)):
+                a_ = strip_cast(a_)
+                if isinstance(a_, ast.Name) and a_.id not in fi.params() and any(same_resolved(fi, b_, k) for k in flow.keys):
+                    defs = local_defs(fi, a_.id)
+                    if defs and all(v is None and isinstance(st, (ast.For, ast.AsyncFor)) and isinstance(st.target, ast.Name) and addresses_of_held(st.iter, held)
+                                    for st, v, _i in defs):
+                        return True
+            return False
         if not (f.op == "in" and f.pos and any(same_resolved(fi, f.left, k) for k in flow.keys)):
             return False
-        return _resolves_to(fi, _unwrap(f.right), lambda x: isinstance(_unwrap(x), ast.Call)
-                            and any(chain(_unwrap(x).func) == f"{g}.addresses.values" for g in held))
-    return [("`<cached> in self.verified_peers`", still_verified), ("`<key> in <cached>.addresses.values()`", still_uses)]
+        return addresses_of_held(f.right, held)
+    return [("`<cached> in self.verified_peers`", still_verified), (_STILL_USES, still_uses)]
+
+
+_STILL_USES = "`<key> in <cached>.addresses.values()`"
 
 
 def _service_required(flow: _ReaderFlow, e: str, facts) -> list[str]:
@@ -1393,16 +2717,45 @@ def _intro_required(flow: _ReaderFlow, e: str, facts) -> list[str]:
             return _is_name(arg(x, 0, "key"), e)
         return False
 
+    evaluated: list[ast.AST] = []        # the entry reads an introducer comparison went through
+
+    def entry_or_blank(x):
+        """the entry of e, or `self._all_addresses.get(e) or WalkableAddress(b"", ..)`: a blank introducer equals no peer's key"""
+        x = strip_cast(x)
+        if entry_of(x):
+            evaluated.append(x)
+            return True
+        if isinstance(x, ast.BoolOp) and isinstance(x.op, ast.Or) and len(x.values) == 2 and entry_of(x.values[0]) and _blank_introducer(fi, x.values[1]):
+            evaluated.append(x)
+            return True
+        if isinstance(x, ast.Call) and chain(x.func) == "self._all_addresses.get" and len(x.args) == 2 and _is_name(x.args[0], e) and _blank_introducer(fi, x.args[1]):
+            evaluated.append(x.args[1])     # .get(e, WalkableAddress(b"", ..)): never None
+            return True
+        return False
+
     def introducer(x):
         x = strip_cast(x)
         if isinstance(x, ast.Attribute) and x.attr == "introduced_by":
-            return _resolves_to(fi, x.value, entry_of)
+            return _resolves_to(fi, x.value, entry_or_blank)
         if isinstance(x, ast.Subscript) and const_value(x.slice) == 0:
-            return _resolves_to(fi, x.value, entry_of)
+            return _resolves_to(fi, x.value, entry_or_blank)
         if isinstance(x, ast.Name):     # intro_peer, service, new_style = self._all_addresses[e]
             defs = local_defs(fi, x.id)
-            return bool(defs) and all(v is not None and idx == 0 and entry_of(v) for _, v, idx in defs)
+            return bool(defs) and all(v is not None and idx == 0 and entry_or_blank(v) for _, v, idx in defs)
         return False
+
+    def known_by_evaluation() -> bool:
+        """the introducer comparison was reached, so reading the entry did not fail: `self._all_addresses[e]` inside a try that catches the
+        KeyError (an unknown address is skipped, not kept), or a read with a blank default entry (whose introducer matches no peer)"""
+        if not evaluated:
+            return False
+        for x in evaluated:
+            if isinstance(x, ast.Subscript):
+                if not _in_try_catching(fi, x, ("KeyError", "LookupError", "Exception", "BaseException")):
+                    return False
+            elif isinstance(x, ast.Call) and chain(x.func) == "self._all_addresses.get":
+                return False        # a bare .get(e): None has no introduced_by - the membership must be tested
+        return True
 
     def introducer_fact(f):
         if not (f.op == "eq" and f.pos):
@@ -1419,11 +2772,32 @@ def _intro_required(flow: _ReaderFlow, e: str, facts) -> list[str]:
             return _resolves_to(fi, f.left, lambda x: isinstance(x, ast.Call) and entry_of(x))
         return False
     missing = []
-    if not any(known_fact(f) for f in facts):
+    has_introducer = any(introducer_fact(f) for f in facts)
+    if not any(known_fact(f) for f in facts) and not (has_introducer and known_by_evaluation()):
         missing.append("that the address is still in self._all_addresses")
-    if not any(introducer_fact(f) for f in facts):
+    if not has_introducer:
         missing.append("that the address is still introduced by this peer (introduced_by == the peer's key)")
     return missing
+
+
+def _in_try_catching(fi: FuncInfo, node: ast.AST, names) -> bool:
+    """node is evaluated inside the body of a try statement with a handler for one of the exception names (or a bare except)"""
+    cur = node
+    for a_ in ancestors(node):
+        if isinstance(a_, ast.Try) and any(cur is st for st in a_.body):
+            for h in a_.handlers:
+                ts = [] if h.type is None else (h.type.elts if isinstance(h.type, ast.Tuple) else [h.type])
+                if h.type is None or any((chain(t_) or "").split(".")[-1] in names for t_ in ts):
+                    return True
+        if isinstance(a_, (ast.With, ast.AsyncWith)) and any(cur is st for st in a_.body):
+            for i_ in a_.items:
+                c_ = strip_cast(i_.context_expr)
+                if isinstance(c_, ast.Call) and (chain(c_.func) or "").split(".")[-1] == "suppress" and any((chain(t_) or "").split(".")[-1] in names for t_ in c_.args):
+                    return True
+        if a_ is fi.node:
+            break
+        cur = a_
+    return False
 
 
 def _private_to_class(ctx: Ctx, net, fi: FuncInfo) -> bool:
@@ -1455,19 +2829,25 @@ def reader_validation(ctx: Ctx) -> dict[str, tuple[bool, str]]:
         helpers: set[str] = set()
         for _round in range(3):
             problems, how, nreads, grew = [], [], 0, False
+            failed: dict[str, list[str]] = {}
             for fi in net.methods.values():
                 flow = _ReaderFlow(ctx, fi, index, kind, required, helpers).run()
                 if flow.problems and fi.name != reader and fi.name not in helpers and _private_to_class(ctx, net, fi):
                     helpers.add(fi.name)
+                    # ... but what it does establish about every value it hands out need not be established again by its callers
+                    ctx.__dict__.setdefault("_c12_helper_open", {})[(index, fi.name)] = None if kind != "elem" or not flow.failed else set(flow.failed)
                     grew = True
                     continue
                 if fi.name in helpers:
                     continue
                 nreads += len(flow.raws) if fi.name == reader else 0
                 problems += [f"{fi.name}: {p}" for p in flow.problems]
+                for lab_, rets_ in flow.failed.items():
+                    failed.setdefault(lab_, []).extend(f"{fi.name}: `{r_}`" for r_ in rets_)
                 how += [f"{fi.name}: {v}" for v in flow.validated]
             if not grew:
                 break
+        ctx.__dict__.setdefault("_c12_reader_failed", {})[index] = (failed, nreads)
         if problems:
             out[index] = (False, dflt + " [" + "; ".join(dict.fromkeys(problems))[:300] + "]")
         elif nreads == 0:
@@ -1500,11 +2880,27 @@ def rule_matrix(ctx: Ctx) -> None:
             upd = _updates_index(ctx, fi, index) or _callers_update(ctx, fi, index)
             val = validates[index][0] and kind == "remove"       # validation cures stale members, not missing ones
             ok = upd or val
+            if not ok:
+                _undecided_if_escapes(ctx, ctx.repo.cls("Network", NW), fi, [index], f"{fi.name} ({coll} {kind}) x {index}")
             matrix[f"{fi.name} [{coll} {kind}] x {index}"] = "updates" if upd else "reader-validates" if val else "STALE"
             ctx.check(ok, "coherence", fi, node, f"{fi.name} ({coll} {kind}) x {index}: " + ("index updated by the mutator" if upd else "readers validate"),
                       f"{fi.name} {'removes from' if kind == 'remove' else 'adds to'} {coll} but neither updates {index} nor do its readers validate "
                       f"({reason}; reader: {validates[index][1]}): lookups disagree with the membership afterwards")
     ctx.extra["coherence_matrix"] = matrix
+    # The addresses of a verified peer change without any remover running: add_verified_peer's address-update path merges the new addresses
+    # into the known instance, and Peer.add_address / peer.addresses are public API that code outside the graph uses on the very objects
+    # the graph stores.  No mutator can purge the address cache for that, so "lookup by address agrees with the verified peers' addresses"
+    # rests on the reader alone: every cached peer it hands out must be shown to STILL USE the queried address.
+    failed, nreads = ctx.__dict__.get("_c12_reader_failed", {}).get("reverse_ip_lookup", ({}, 0))
+    reader = ctx.repo.cls("Network", NW).methods["get_verified_by_address"]
+    stale = failed.get(_STILL_USES, [])
+    ctx.check(not stale, "coherence", reader, reader.node,
+              "get_verified_by_address: a cached peer is only returned after checking that it still uses the address (address changes of a live peer purge nothing)"
+              if nreads else "get_verified_by_address never reads the address cache: every answer is recomputed from the verified peers' addresses",
+              "the address cache (reverse_ip_lookup) is read without checking that the cached peer STILL USES the queried address (" + "; ".join(dict.fromkeys(stale))[:200]
+              + "): the addresses of a verified peer change without any removal (add_verified_peer merges the addresses of a known identity into the stored instance, "
+              "Peer.add_address is public), which purges nothing, so a peer that moved away from the address keeps being returned by lookup by address - even after "
+              "another verified peer took the address over")
     # cached lists are never created from partial knowledge: D[k] = [<single element>] outside the readers
     net = ctx.repo.cls("Network", NW)
     readers = {"get_verified_by_address", "get_introductions_from", "get_peers_for_service"}
@@ -1541,6 +2937,103 @@ def rule_matrix(ctx: Ctx) -> None:
                       "asking changes who supports the service, and cached per-service lists disagree with a recomputation")
 
 
+# ------------------------------------------------------------------------------------------------------------------
+# which Peer INSTANCE goes into a lookup cache.  Peers compare equal by public key, but addresses live on the instance, and the graph
+# keeps exactly one instance per identity (the member of verified_peers == the value in verified_by_public_key_bin): address updates
+# (add_verified_peer's update path) are merged into THAT instance.  A cache that holds another, equal instance passes every membership
+# validation and keeps answering with the addresses that instance had when it was cached.  Decided positively only: a finding needs an
+# insertion whose value can be nothing but a Peer handed in from outside that this call does not make the stored instance.
+
+_CANONICAL_SOURCES = ("self.verified_by_public_key_bin", "self.verified_peers", "self.get_verified_by_public_key_bin", "self.get_verified_by_address",
+                      "self.get_peers_for_service", "self.reverse_service_lookup", "self.reverse_ip_lookup")
+
+
+def _registers(ctx: Ctx, net, fi: FuncInfo, param: str, depth: int = 2) -> bool:
+    """somewhere in fi (or in a Network method it hands the parameter to) the parameter becomes the stored instance: verified_peers.add(p) /
+    verified_by_public_key_bin[..] = p"""
+    who = ast.Name(id=param, ctx=ast.Load())
+    for n, op, _r, key in _coll_ops(fi, "verified_peers"):
+        if op in ("add",) and key is not None and same_resolved(fi, key, who):
+            return True
+        if op in ("update", "aug") and any(_is_name(x, param) for x in ast.walk(n)):
+            return True
+    for n, op, _r, _k in _coll_ops(fi, "verified_by_public_key_bin"):
+        if op in _ADD_OPS and any(_is_name(x, param) for x in ast.walk(n)):
+            return True
+    if depth > 0:
+        for c in calls(fi):
+            for t in _call_targets(net, fi, c):
+                inner = _bind(fi, c, t, who)
+                if inner is not None and _registers(ctx, net, t, inner.id, depth - 1):
+                    return True
+    return False
+
+
+def _instance_origin(ctx: Ctx, net, fi: FuncInfo, e: ast.AST, depth: int = 3, _seen: frozenset = frozenset()) -> str:
+    """'foreign': the value of e can only be a Peer object handed in from outside the graph that is not made the stored instance;
+    'stored': some alternative is drawn from the graph's own collections; 'unknown' otherwise"""
+    got = set()
+    for p_ in _value_positions(e):
+        p_ = strip_cast(p_)
+        if any(mentions(p_, src) for src in _CANONICAL_SOURCES):
+            got.add("stored")
+        elif isinstance(p_, ast.Name) and p_.id in _params_of(fi) and not local_defs(fi, p_.id):
+            if _registers(ctx, net, fi, p_.id):
+                got.add("stored")
+            elif not _is_private(fi):
+                got.add("foreign")
+            elif depth > 0 and (id(fi.node), p_.id) not in _seen:
+                sites = _internal_call_sites(ctx, net, fi)
+                if not sites:
+                    got.add("unknown")
+                for caller, call in sites or []:
+                    a_ = _arg_for(call, fi, p_.id)
+                    got.add(_instance_origin(ctx, net, caller, a_, depth - 1, _seen | {(id(fi.node), p_.id)}) if a_ is not None else "unknown")
+            else:
+                got.add("unknown")
+        elif isinstance(p_, ast.Name) and p_.id not in fi.params() and depth > 0 and (id(fi.node), p_.id) not in _seen:
+            vals = _bound_values(fi, p_)
+            if not vals:
+                got.add("unknown")
+            for v in vals:
+                if v is None:
+                    # a loop / comprehension variable: over the graph's own collections it is a stored instance
+                    its = [st.iter for st, v_, _i in local_defs(fi, p_.id) if v_ is None and isinstance(st, (ast.For, ast.AsyncFor))]
+                    got.add("stored" if its and all(any(mentions(it, src) for src in _CANONICAL_SOURCES) or _entry_of_index(fi, it, "reverse_service_lookup", ctx)
+                                                   for it in its) else "unknown")
+                else:
+                    got.add(_instance_origin(ctx, net, fi, v, depth - 1, _seen | {(id(fi.node), p_.id)}))
+        else:
+            got.add("unknown")
+    if got == {"foreign"}:
+        return "foreign"
+    return "stored" if "stored" in got else "unknown"
+
+
+def rule_canonical_instances(ctx: Ctx) -> None:
+    net = ctx.repo.cls("Network", NW)
+    n = 0
+    for fi in net.methods.values():
+        sites = []
+        for c in calls(fi):
+            if isinstance(c.func, ast.Attribute) and c.func.attr in ("append", "insert", "add") and c.args \
+                    and _entry_of_index(fi, c.func.value, "reverse_service_lookup", ctx, loops=True):
+                sites.append((c, c.args[-1], "reverse_service_lookup"))
+        for nd, op, _r, _k in _coll_ops(fi, "reverse_ip_lookup"):
+            if op == "set[]" and isinstance(nd, (ast.Assign, ast.AnnAssign)) and nd.value is not None:
+                sites.append((nd, nd.value, "reverse_ip_lookup"))
+            elif op in ("__setitem__", "setdefault") and isinstance(nd, ast.Call) and len(nd.args) == 2:
+                sites.append((nd, nd.args[1], "reverse_ip_lookup"))
+        for node, value, index in sites:
+            n += 1
+            origin = _instance_origin(ctx, net, fi, value)
+            ctx.check(origin != "foreign", "coherence", fi, node, f"{fi.name}: the Peer put into {index} is the instance the graph stores (or cannot be told apart statically: {origin})",
+                      f"{fi.name} puts the Peer object it was handed (`{norm(value)[:40]}`) into the {index} cache instead of the instance the graph stores for that identity "
+                      "(verified_by_public_key_bin / verified_peers): peers compare equal by public key, so every membership validation passes, but address updates are "
+                      "merged into the stored instance only - the cached copy keeps its old addresses, and the lookups that go through this cache (peers per service, "
+                      "walkable addresses) disagree with the verified peer's real addresses")
+
+
 def _is_coll(e: ast.AST, coll: str) -> bool:
     return chain(_unwrap(e)) in (coll, coll + ".keys()")
 
@@ -1563,6 +3056,10 @@ def _quantified(f, coll: str) -> str | None:
         return None
     c = f.left
     name = chain(c.func)
+    if name in ("any", "all") and len(c.args) == 1:
+        g_ = _pipeline(None, c.args[0])         # any(map(self._all_addresses.__contains__, addresses))
+        if g_ is not c.args[0]:
+            c = ast.Call(func=c.func, args=[g_], keywords=[])
     if name in ("any", "all") and len(c.args) == 1 and isinstance(c.args[0], (ast.GeneratorExp, ast.ListComp, ast.SetComp)) \
             and len(c.args[0].generators) == 1 and not c.args[0].generators[0].ifs:
         elt = c.args[0].elt
@@ -1683,10 +3180,11 @@ def rule_blacklists(ctx: Ctx) -> None:
         fi, c = frames[-1]
         whos = _who_down(frames, peer)
         shown = _frame_facts(ctx, frames)
-        ok = any(_guarded(ctx, net, f_, n_, w_, mid_edge) for (f_, n_), w_ in zip(frames, whos))
+        nxt = [t_ for t_, _n in frames[1:]] + [None]       # the method each frame's call enters
+        ok = any(_guarded(ctx, net, f_, n_, w_, mid_edge, leads_to=t_) for (f_, n_), w_, t_ in zip(frames, whos, nxt))
         ctx.check(ok, "blacklists", fi, c, "verified_peers.add dominated by peer.mid not in blacklist_mids", "a blacklisted identity can become a verified peer", shown)
         # the new-peer branch (no known address) requires all addresses outside the blacklist
-        ok = any(_guarded(ctx, net, f_, n_, w_, addr_edge) for (f_, n_), w_ in zip(frames, whos))
+        ok = any(_guarded(ctx, net, f_, n_, w_, addr_edge, leads_to=t_) for (f_, n_), w_, t_ in zip(frames, whos, nxt))
         ctx.check(ok, "blacklists", fi, c, "peer added only via a known address or with all addresses outside the blacklist",
                   "a peer with a blacklisted address is added as a new verified peer", shown)
     for m, fi, a in ctx.repo.attribute_uses("verified_peers"):
@@ -1719,7 +3217,8 @@ def rule_blacklists(ctx: Ctx) -> None:
             raise AnalysisError(f"undecided: {fi.qualname} adds to _all_addresses with `{norm(st)[:60]}`: the stored address is not syntactically known")
         n_stores += 1
         whos = _who_up(frames, key)
-        ok = any(_guarded(ctx, net, f_, n_, w_, black_edge) for (f_, n_), w_ in zip(frames, whos))
+        nxt = [t_ for t_, _n in frames[1:]] + [None]
+        ok = any(_guarded(ctx, net, f_, n_, w_, black_edge, leads_to=t_) for (f_, n_), w_, t_ in zip(frames, whos, nxt))
         ctx.check(ok, "blacklists", fi, st, "discover_address stores only non-blacklisted addresses", "a blacklisted address becomes walkable", _frame_facts(ctx, frames))
     ctx.floor("blacklists.discover-address", n_stores, 1)
 
@@ -1796,11 +3295,14 @@ def _by_key_targets(ctx: Ctx, net, fi: FuncInfo, who: _Who, adding: bool, depth:
 
 def _key_absent_edge(ctx: Ctx, net, fi: FuncInfo, who: _Who):
     """`if key in self.verified_by_public_key_bin: del ...[key]`: nothing to delete on the other branch"""
+    def absent_fact(f):
+        return f.op == "in" and not f.pos and "self.verified_by_public_key_bin" in _denotes(fi, _unwrap(f.right)) and who.is_key(ctx, net, fi, f.left)
+
     def absent(u, v, lab):
         if u.kind != "cond" or lab not in (True, False):
             return False
-        f = fact_of(u.ast, lab)
-        return f.op == "in" and not f.pos and "self.verified_by_public_key_bin" in _denotes(fi, _unwrap(f.right)) and who.is_key(ctx, net, fi, f.left)
+        return absent_fact(fact_of(u.ast, lab))
+    absent.fact = absent_fact
     return absent
 
 
@@ -1810,7 +3312,8 @@ def _always_by_key(ctx: Ctx, net, t: FuncInfo, who: _Who, adding: bool, depth: i
         return False
     cfg = ctx.cfg(t)
     nodes = _by_key_targets(ctx, net, t, who, adding, depth)
-    return bool(nodes) and cfg.exit not in cfg.reach(cut_nodes=nodes, cut_edge=None if adding else _key_absent_edge(ctx, net, t, who), follow_exc=False)
+    absent = None if adding else _key_absent_edge(ctx, net, t, who)
+    return bool(nodes) and cfg.exit not in _reach(ctx, t, cut_nodes=nodes, cut_edge=absent, follow_exc=False, cut_fact=None if adding else absent.fact)
 
 
 def _by_key_follows(ctx: Ctx, net, fi: FuncInfo, start: ast.AST, who: _Who, adding: bool, depth: int = 2) -> bool:
@@ -1822,7 +3325,8 @@ def _by_key_follows(ctx: Ctx, net, fi: FuncInfo, start: ast.AST, who: _Who, addi
     nodes = _by_key_targets(ctx, net, fi, who, adding)
     cut = None if adding else _key_absent_edge(ctx, net, fi, who)
     starts = cfg.nodes_for(start)
-    if starts and all(cfg.exit not in cfg.reach([v for v, lab in n.succ if lab != "exc"], cut_nodes=nodes, cut_edge=cut, follow_exc=False) for n in starts):
+    if starts and all(cfg.exit not in _reach(ctx, fi, after=[n], cut_nodes=nodes, cut_edge=cut, follow_exc=False,
+                                             cut_fact=None if cut is None else cut.fact) for n in starts):
         return True
     if depth > 0 and _is_private(fi):
         sites = _internal_call_sites(ctx, net, fi)
@@ -1843,10 +3347,14 @@ def rule_by_key(ctx: Ctx) -> None:
             if op == "add" and peer is not None:
                 # the sibling store registers the same peer under that peer's key
                 ok = _by_key_follows(ctx, net, fi, c, _Who.of(fi, peer), True)
+                if not ok:
+                    _undecided_if_escapes(ctx, net, fi, ["verified_by_public_key_bin"], "by-key index after verified_peers.add")
                 ctx.check(ok, "by-key-index", fi, c, "verified_peers.add(p) always followed by verified_by_public_key_bin[p.key] = p",
                           "a peer is added to the verified set without its by-key index entry")
             elif op in ("remove", "discard") and peer is not None:
                 ok = _by_key_follows(ctx, net, fi, c, _Who.of(fi, peer), False)
+                if not ok:
+                    _undecided_if_escapes(ctx, net, fi, ["verified_by_public_key_bin"], "by-key index after verified_peers.remove")
                 ctx.check(ok, "by-key-index", fi, c, "verified_peers.remove(p) always followed by verified_by_public_key_bin.pop(p.key)",
                           "a peer is removed from the verified set but stays in the by-key index (it can never be added again)")
 
@@ -1905,6 +3413,9 @@ def _removes_member(ctx: Ctx, net, fi: FuncInfo, who: ast.AST | None, depth: int
     def differs(g, x):
         return g.op == "eq" and not g.pos and ((_is_name(g.left, x) and same_resolved(fi, g.right, who)) or (_is_name(g.right, x) and same_resolved(fi, g.left, who)))
 
+    def absent_fact(f):
+        return f.op == "in" and not f.pos and same_resolved(fi, f.left, who) and "self.verified_peers" in _denotes(fi, _unwrap(f.right))
+
     def absent(u, v, lab):
         if lab not in (True, False) or u.ast is None:
             return False
@@ -1914,9 +3425,8 @@ def _removes_member(ctx: Ctx, net, fi: FuncInfo, who: ast.AST | None, depth: int
                 and _loop_forall(ctx, fi, u.ast, differs)
         if u.kind != "cond":
             return False
-        f = fact_of(u.ast, lab)
-        return f.op == "in" and not f.pos and same_resolved(fi, f.left, who) and "self.verified_peers" in _denotes(fi, _unwrap(f.right))
-    return bool(rem) and cfg.exit not in cfg.reach(cut_nodes=rem, cut_edge=absent, follow_exc=False)
+        return absent_fact(fact_of(u.ast, lab))
+    return bool(rem) and cfg.exit not in _reach(ctx, fi, cut_nodes=rem, cut_edge=absent, follow_exc=False, cut_fact=absent_fact)
 
 
 def _one(got: set) -> str:
@@ -1996,17 +3506,56 @@ def rule_removal(ctx: Ctx) -> None:
     cfg = ctx.cfg(ra)
     scans = _scans_verified(ctx, net, ra, 2)
 
+    def empty_fact(f):
+        return f.op == "truthy" and not f.pos and chain(_unwrap(f.left)) == "self.verified_peers"
+
     def empty(u, v, lab):       # `if not self.verified_peers: return` - nothing to scan
         if u.kind != "cond" or lab not in (True, False):
             return False
-        f = fact_of(u.ast, lab)
-        return f.op == "truthy" and not f.pos and chain(_unwrap(f.left)) == "self.verified_peers"
-    ok = bool(scans) and cfg.exit not in cfg.reach(cut_nodes=scans, cut_edge=empty, follow_exc=False)
+        return empty_fact(fact_of(u.ast, lab))
+    ok = bool(scans) and cfg.exit not in _reach(ctx, ra, cut_nodes=scans, cut_edge=empty, follow_exc=False, cut_fact=empty_fact)
     ctx.check(ok, "removal", ra, ra.node, "remove_by_address looks at every verified peer on every path",
               "remove_by_address can return without looking at the verified peers (e.g. because the address is not a key of _all_addresses, which is "
               "not an index of the verified peers' addresses): a verified peer that uses the address stays verified and is still returned by every lookup")
+    # ... and "uses the address" is a question about VALUES: Peer.addresses is keyed by the class of the address object as it was registered
+    # (peer.py: self._addresses[address.__class__] = address) while addresses are compared by value everywhere (an (ip, port) tuple equals
+    # the UDPv4Address of the same endpoint).  A probe under the class of the QUERY address misses a peer registered with an equal address
+    # of another class, so that peer survives the removal.  Decided positively only: the scan compares the removed address with a keyed
+    # read of <peer>.addresses and never consults <peer>.addresses.values() / .items().
+    keyed, by_value = [], []
+    for frames in _reach_sites(ctx, net, ra, lambda g: [g.node], 2):
+        g = frames[-1][0]
+        addr = _who_down(frames, ast.Name(id=ra.params()[1], ctx=ast.Load()))[-1]
+        for n_ in ast.walk(g.node):
+            if isinstance(n_, ast.Call) and isinstance(n_.func, ast.Attribute) and n_.func.attr in ("values", "items") and (chain(n_.func.value) or "").endswith(".addresses"):
+                by_value.append(n_)
+            if not isinstance(n_, ast.Compare) or len(n_.ops) != 1 or not isinstance(n_.ops[0], (ast.Eq, ast.NotEq, ast.Is, ast.IsNot)) or addr is None:
+                continue
+            for a_, b_ in ((n_.left, n_.comparators[0]), (n_.comparators[0], n_.left)):
+                a_ = strip_cast(resolve(g, a_)) if isinstance(strip_cast(a_), ast.Name) else strip_cast(a_)
+                probe = a_.func.value if isinstance(a_, ast.Call) and isinstance(a_.func, ast.Attribute) and a_.func.attr in ("get", "pop") and a_.args else \
+                    a_.value if isinstance(a_, ast.Subscript) and isinstance(a_.ctx, ast.Load) else None
+                if probe is not None and (chain(probe) or "").endswith(".addresses") and same_resolved(g, b_, addr):
+                    keyed.append((g, n_))
+    pc = ctx.repo.try_cls("Peer", "ipv8/peer.py")
+    class_keyed = pc is not None and any(isinstance(t_, ast.Subscript) and (chain(t_.value) or "").endswith("._addresses")
+                                         and any((isinstance(x, ast.Attribute) and x.attr == "__class__") or (isinstance(x, ast.Call) and chain(x.func) == "type")
+                                                 for x in ast.walk(t_.slice))
+                                         for m_ in pc.methods.values() for st_ in ast.walk(m_.node) if isinstance(st_, ast.Assign) for t_ in st_.targets)
+    if keyed and not by_value and class_keyed:
+        g, n_ = keyed[0]
+        ctx.check(False, "removal", g, n_, f"{g.name}: whether a verified peer uses the removed address is decided over all of its addresses (by value)",
+                  f"{g.name}{'' if g is ra else ' (reached from remove_by_address)'} decides whether a verified peer uses the address by a keyed read of peer.addresses (`{norm(n_)[:70]}`) and never looks at "
+                  "peer.addresses.values(): Peer.addresses is keyed by the class of the address object the peer was registered with, while addresses compare by value "
+                  "(an (ip, port) tuple equals the UDPv4Address of the same endpoint), so a peer registered under another address class than the argument is not found - "
+                  "it stays in verified_peers, the by-key index and the per-service lists and is still returned by every lookup after its address was removed")
+    else:
+        ctx.instance("removal", ra.where, "remove_by_address: no verified peer is matched by a class-keyed probe of its addresses alone"
+                     + (" (the scan consults .addresses.values())" if by_value else ""))
     rp = net.methods["remove_peer"]
     ok = _removes_member(ctx, net, rp, ast.Name(id=rp.params()[1], ctx=ast.Load()))
+    if not ok:
+        _undecided_if_escapes(ctx, net, rp, ["verified_peers"], "remove_peer takes the peer out of verified_peers")
     ctx.check(ok, "removal", rp, rp.node, "remove_peer takes the peer out of verified_peers on every path (unless it is not a member)",
               "remove_peer can return while the peer is still in verified_peers: the removed peer is still returned by lookups")
     # instance coherence (defect fixed by 97dc48d): the readers of reverse_ip_lookup / reverse_service_lookup re-validate a cached Peer by
@@ -2068,6 +3617,8 @@ def rule_removal(ctx: Ctx) -> None:
     for index in ("reverse_ip_lookup", "reverse_service_lookup"):
         for fi in (ra, rp):
             ok = _updates_index(ctx, fi, index) or prunes_values(fi, index) or validates_identity(index)
+            if not ok:
+                _undecided_if_escapes(ctx, net, fi, [index], f"{fi.name} forgets the removed peer in {index}")
             ctx.check(ok, "removal", fi, fi.node, f"{fi.name} forgets the removed peer(s) in {index} (or its readers validate cached peers by identity)",
                       f"{fi.name} leaves the removed Peer instance in {index}: its readers re-validate cached entries by equality against verified_peers, so after "
                       "the same identity is added again as another instance (other addresses) lookups return the removed instance with its old addresses")
@@ -2099,9 +3650,9 @@ def _iteration_of(ctx: Ctx, fi: FuncInfo, node: ast.AST):
             g = a_.generators[-1]
             fs = [f for g2 in a_.generators for c in g2.ifs for f in _atoms_with_polarity(c, True)]
             # the surrounding statement's own guards are not about one element; they are reported to the caller as facts too
-            return g.target, g.iter, fs + expr_context_facts(node) + facts_at(cfg, enclosing_stmt(a_))
+            return g.target, g.iter, fs + expr_context_facts(node) + _facts_here(ctx, fi, enclosing_stmt(a_))
         if isinstance(a_, (ast.For, ast.AsyncFor)):
-            return a_.target, a_.iter, facts_at(cfg, node)
+            return a_.target, a_.iter, _facts_here(ctx, fi, node)
         if a_ is fi.node:
             break
     return None
@@ -2149,7 +3700,7 @@ def _snapshot_stream(ctx: Ctx, net, fi: FuncInfo, node: ast.AST, value: ast.AST,
 def _address_source(ctx: Ctx, net, fi: FuncInfo, src: ast.AST, depth: int) -> bool:
     """the iterable yields the address of every verified peer, skipping only null addresses"""
     def one(y):
-        y = _unwrap(y)
+        y = _unwrap(_pipeline(fi, _unwrap(y)))
         if isinstance(y, (ast.ListComp, ast.SetComp, ast.GeneratorExp)) and len(y.generators) == 1:
             ok, allowed, _fs = _snapshot_stream(ctx, net, fi, y.elt, y.elt, depth)
             return ok and allowed
@@ -2168,7 +3719,7 @@ def _yields_addresses(ctx: Ctx, net, t: FuncInfo, depth: int) -> bool:
     cfg = ctx.cfg(t)
     for y in ys:
         if isinstance(y, ast.YieldFrom):
-            if _innermost_loop(t, y) is not None or facts_at(cfg, y) or not _address_source(ctx, net, t, y.value, depth):
+            if _innermost_loop(t, y) is not None or _facts_here(ctx, t, y) or not _address_source(ctx, net, t, y.value, depth):
                 return False
         else:
             ok, allowed, _fs = _snapshot_stream(ctx, net, t, y, y.value, depth) if y.value is not None else (False, False, [])
@@ -2181,7 +3732,7 @@ def rule_snapshot_codec(ctx: Ctx) -> None:
     net = ctx.repo.cls("Network", NW)
     sn, ld = net.methods["snapshot"], net.methods["load_snapshot"]
     # the pack / unpack call may live in a private helper (e.g. a generator that yields the packed entries)
-    packs = [fr[-1] for fr in _reach_sites(ctx, net, sn, lambda f: [c for c in calls(f) if call_name(c) == "pack"])]
+    packs = [fr[-1] for fr in _reach_sites(ctx, net, sn, lambda f: [c for c in _calls_with_views(f) if call_name(c) == "pack"])]
     unpacks = [fr[-1] for fr in _reach_sites(ctx, net, ld, lambda f: [c for c in calls(f) if call_name(c) == "unpack"])]
     ok = len(packs) == 1 and len(unpacks) == 1 \
         and const_value(resolve(packs[0][0], arg(packs[0][1], 0))) == const_value(resolve(unpacks[0][0], arg(unpacks[0][1], 0))) == "address" \
@@ -2305,6 +3856,11 @@ def _all_addresses_of(ctx: Ctx, fi: FuncInfo, e: ast.AST, depth: int = 3, source
         def source(x):
             return _peer_source(fi, x)
     e = _unwrap(e)
+    view = _unwrap(_pipeline(fi, e))
+    if view is not e:
+        r_ = _all_addresses_of(ctx, fi, view, depth, source)
+        if r_[0]:
+            return r_
     if isinstance(e, (ast.ListComp, ast.SetComp, ast.GeneratorExp)):
         gens = e.generators
         if any(g.ifs for g in gens) or not isinstance(gens[0].target, ast.Name) or not source(gens[0].iter):
@@ -2406,6 +3962,8 @@ def _subtrahends(ctx: Ctx, fi: FuncInfo) -> list[tuple[ast.AST, ast.AST]]:
         return _resolves_to(fi, x, lambda y: not isinstance(y, ast.Name) and mentions(y, "self._all_addresses"))
     out = []
     for n in walk_no_nested(fi.node):
+        if isinstance(n, ast.Call) and _pipeline(fi, n) is not n:
+            n = _pipeline(fi, n)        # filter(lambda a: a not in verified, self._all_addresses)
         if isinstance(n, ast.BinOp) and isinstance(n.op, ast.Sub) and known(n.left):
             out.append((n, n.right))
         elif isinstance(n, ast.AugAssign) and isinstance(n.op, ast.Sub) and known(n.target):
@@ -2425,7 +3983,7 @@ def _subtrahends(ctx: Ctx, fi: FuncInfo) -> list[tuple[ast.AST, ast.AST]]:
             for c in [x for st in n.body for x in walk_no_nested(st)
                       if (isinstance(x, ast.Call) and call_name(x) in ("append", "add") and len(x.args) == 1 and _is_name(x.args[0], n.target.id))
                       or (isinstance(x, ast.Yield) and x.value is not None and _is_name(x.value, n.target.id))]:
-                for f in facts_at(cfg, c):
+                for f in _facts_here(ctx, fi, c):
                     if f.op == "in" and not f.pos and _is_name(f.left, n.target.id) and id(f.atom) not in seen:
                         seen.add(id(f.atom))
                         out.append((n, f.right))
@@ -2534,7 +4092,7 @@ def rule_walkable_and_peer(ctx: Ctx) -> None:
                 v = norm(recv)
                 cfg = cfg or ctx.cfg(f)
                 n += 1
-                fs = facts_at(cfg, c)
+                fs = _facts_here(ctx, f, c)
                 truthy = any(f_.op == "truthy" and f_.pos and same_resolved(f, f_.left, recv) for f_ in fs)
                 notnone = any(f_.op == "is" and not f_.pos and same_resolved(f, f_.left, recv) and const_value(f_.right) is None for f_ in fs)
                 # the entry is a loop variable: the existence test is made where the entries are produced (self.<idx>.values(): they
@@ -2547,7 +4105,7 @@ def rule_walkable_and_peer(ctx: Ctx) -> None:
                             continue
                         per = []
                         for t_, y_, val_ in sites:
-                            yf = facts_at(ctx.cfg(t_), y_)
+                            yf = _facts_here(ctx, t_, y_)
                             fs = fs + yf
                             per.append((any(g.op == "is" and not g.pos and same_resolved(t_, g.left, val_) and const_value(g.right) is None for g in yf),
                                         any(g.op == "truthy" and g.pos and same_resolved(t_, g.left, val_) for g in yf)))
@@ -2564,10 +4122,19 @@ def rule_walkable_and_peer(ctx: Ctx) -> None:
 
 
 def run(ctx: Ctx) -> None:
+    _RUN_CTX[:] = [ctx]
+    try:
+        _run(ctx)
+    finally:
+        _RUN_CTX[:] = []
+
+
+def _run(ctx: Ctx) -> None:
     rule_walkable_and_peer(ctx)
     rule_matrix(ctx)
     rule_blacklists(ctx)
     rule_by_key(ctx)
+    rule_canonical_instances(ctx)
     rule_removal(ctx)
     rule_snapshot_codec(ctx)
     rule_external_writers(ctx)
@@ -2646,6 +4213,43 @@ WITNESSES = [
      "new": """        for address in peer.addresses.values():
             if self.reverse_ip_lookup.get(address) == peer:
                 del self.reverse_ip_lookup[address]"""},
+    {"name": "address cache hit validated by membership only: a peer that moved to another address is still returned (seeded C12-m10)", "file": NW, "rule": "coherence",
+     "old": "            if peer is not None and (peer not in self.verified_peers or address not in peer.addresses.values()):",
+     "new": "            if peer is not None and peer not in self.verified_peers:"},
+    {"name": "service cache gets the passed-in Peer object instead of the stored instance (seeded C12-m11)", "file": NW, "rule": "coherence",
+     "old": "                    service_cache.append(self.verified_by_public_key_bin.get(key_material, peer))",
+     "new": "                    service_cache.append(peer)"},
+    {"name": "remove_by_address probes peer.addresses under the class of the argument instead of scanning the values (seeded C12-m12)", "file": NW, "rule": "removal",
+     "old": "                                  if address not in peer.addresses.values()",
+     "new": "                                  if peer.addresses.get(address.__class__) != address"},
+    {"name": "verdict object: the refused case is admitted too (decision carried by a value)", "file": NW, "rule": "blacklists",
+     "old": """            if any(address in self._all_addresses for address in peer.addresses.values()):
+                if peer not in self.verified_peers:
+                    # This should always happen, unless someone edits the verified_peers dict directly.
+                    # This would be a programmer "error", but we will allow it.
+                    self.verified_peers.add(peer)
+                    self.verified_by_public_key_bin[peer.public_key.key_to_bin()] = peer
+                    self._add_to_service_caches(peer)
+                    list(map(methodcaller("on_peer_added", peer), self.peer_observers))
+            elif all(address not in self.blacklist for address in peer.addresses.values()):
+                for address in peer.addresses.values():
+                    if address not in self._all_addresses:
+                        self._all_addresses[address] = WalkableAddress(b"", None, False)
+                if peer not in self.verified_peers:
+""",
+     "new": """            if any(address in self._all_addresses for address in peer.addresses.values()):
+                plan = ("admit", False)
+            elif all(address not in self.blacklist for address in peer.addresses.values()):
+                plan = ("admit", True)
+            else:
+                plan = ("refuse", False)
+            if plan[1]:
+                for address in peer.addresses.values():
+                    if address not in self._all_addresses:
+                        self._all_addresses[address] = WalkableAddress(b"", None, False)
+            if plan[0] in ("admit", "refuse"):
+                if peer not in self.verified_peers:
+"""},
     {"name": "external writer of verified_peers", "file": "ipv8/peerdiscovery/community.py", "rule": "external-writers",
      "old": "        self.network.add_verified_peer(node)\n        self.network.discover_services(node, payload.preference_list)",
      "new": "        self.network.verified_peers.add(node)\n        self.network.discover_services(node, payload.preference_list)"},
